@@ -742,4 +742,1441 @@ CASES = {
         ('            if timeout is not None and time.time() - self._start_time > timeout:\n',
          '            if timeout not in (None, 0) and time.time() - self._start_time > timeout:\n'),
     ]),
+    # red team E (redteam/E): the edits that the machinery reports now
+    'Em1': ('C17', 'structure/residues.py', [
+        ('    residue_starts = np.where(residue_change_mask)[0] + 1\n',
+         '    residue_starts = np.where(residue_change_mask)[0] + 1\n    view = residue_starts.conj()\n    view[:] = 0\n'),
+    ]),
+    'Em1b': ('C17', 'structure/residues.py', [
+        ('    residue_starts = np.where(residue_change_mask)[0] + 1\n',
+         '    residue_starts = np.where(residue_change_mask)[0] + 1\n    view = residue_starts.conjugate()\n    view[:] = 0\n'),
+    ]),
+    'Em1c': ('C17', 'structure/residues.py', [
+        ('    residue_starts = np.where(residue_change_mask)[0] + 1\n',
+         "    residue_starts = np.where(residue_change_mask)[0] + 1\n    box = dict.fromkeys(['k'], residue_starts)\n    box['k'][:] = 0\n"),
+    ]),
+    'Em1d': ('C05', 'structure/io/pdbx/bcif.py', [
+        ('                array = self._data.array.astype(dtype, copy=True)\n',
+         '                array = self._data.array.conj()\n'),
+    ]),
+    'Em2': ('C17', 'structure/residues.py', [
+        ('    residue_starts = np.where(residue_change_mask)[0] + 1\n',
+         '    residue_starts = np.where(residue_change_mask)[0] + 1\n    from biotite.structure.io.pdbx.cif import _arrayfy as _lift\n    view = _lift(residue_starts)\n    view[:] = 0\n'),
+    ]),
+    'Em2b': ('C17', 'structure/residues.py', [
+        ('    residue_starts = np.where(residue_change_mask)[0] + 1\n',
+         '    residue_starts = np.where(residue_change_mask)[0] + 1\n    import biotite.structure.io.pdbx.cif as _cif\n    view = _cif._arrayfy(residue_starts)\n    view[:] = 0\n'),
+    ]),
+    'Em3': ('C17', 'structure/residues.py', [
+        ('    residue_starts = np.where(residue_change_mask)[0] + 1\n',
+         '    residue_starts = np.where(residue_change_mask)[0] + 1\n    box = {}\n    box[0, 0] = residue_starts\n    box[0, 0][:] = 0\n'),
+    ]),
+    'Em3b': ('C17', 'structure/residues.py', [
+        ('    residue_starts = np.where(residue_change_mask)[0] + 1\n',
+         '    residue_starts = np.where(residue_change_mask)[0] + 1\n    box = np.empty((1, 1), dtype=object)\n    box[0, 0] = residue_starts\n    box[0, 0][:] = 0\n'),
+    ]),
+    'Em4': ('C17', 'structure/residues.py', [
+        ('    residue_change_mask = (\n        chain_id_changes | res_id_changes | ins_code_changes | res_name_changes\n    )\n',
+         '    residue_change_mask = chain_id_changes | res_id_changes\n    def _starts(mask=residue_change_mask):\n        return np.where(mask)[0] + 1\n    residue_change_mask = residue_change_mask | ins_code_changes | res_name_changes\n'),
+        ('    residue_starts = np.where(residue_change_mask)[0] + 1\n',
+         '    residue_starts = _starts()\n'),
+    ]),
+    'Em5': ('C17', 'structure/residues.py', [
+        ('def get_residue_starts(array, add_exclusive_stop=False):\n',
+         'async def _starts(mask):\n    return np.where(mask)[0] + 1\n\n\ndef get_residue_starts(array, add_exclusive_stop=False):\n'),
+        ('    residue_starts = np.where(residue_change_mask)[0] + 1\n',
+         '    residue_starts = _starts(residue_change_mask)\n'),
+    ]),
+    'Em6': ('C11', 'sequence/align/cigar.py', [
+        ('    operations[insertion_mask] = CigarOp.INSERTION\n',
+         '    operations[insertion_mask] = CigarOp.INSERTION\n    operations[insertion_mask] = CigarOp.DELETION\n'),
+    ]),
+    'Em6b': ('C11', 'sequence/align/cigar.py', [
+        ('    operations[insertion_mask] = CigarOp.INSERTION\n',
+         '    if False:\n        operations[insertion_mask] = CigarOp.INSERTION\n    operations[insertion_mask] = CigarOp.DELETION\n'),
+    ]),
+    'Em7': ('C11', 'sequence/align/cigar.py', [
+        ('    @staticmethod\n    def from_cigar_symbol(symbol):',
+         '    def __eq__(self, other):\n        return int(self) == int(other) or {int(self), int(other)} == {4, 5}\n\n    __hash__ = enum.IntEnum.__hash__\n\n    @staticmethod\n    def from_cigar_symbol(symbol):'),
+    ]),
+    'Em8': ('C17', 'structure/residues.py', [
+        ('    residue_starts = np.where(residue_change_mask)[0] + 1\n',
+         '    residue_starts = np.where(residue_change_mask)[0] + 1\n    residue_starts[:] = 0\n'),
+        ('def apply_residue_wise(',
+         'if False:\n    def get_residue_starts(array, add_exclusive_stop=False):\n        if array.array_length() == 0:\n            if add_exclusive_stop:\n                return np.array([0], dtype=int)\n            return np.array([], dtype=int)\n        chain_id_changes = array.chain_id[1:] != array.chain_id[:-1]\n        res_id_changes = array.res_id[1:] != array.res_id[:-1]\n        ins_code_changes = array.ins_code[1:] != array.ins_code[:-1]\n        res_name_changes = array.res_name[1:] != array.res_name[:-1]\n        residue_change_mask = chain_id_changes | res_id_changes | ins_code_changes | res_name_changes\n        residue_starts = np.where(residue_change_mask)[0] + 1\n        if add_exclusive_stop:\n            return np.concatenate(([0], residue_starts, [array.array_length()]))\n        else:\n            return np.concatenate(([0], residue_starts))\n\n\ndef apply_residue_wise('),
+    ]),
+    'Em8b': ('C17', 'structure/residues.py', [
+        ('    residue_starts = np.where(residue_change_mask)[0] + 1\n',
+         '    residue_starts = np.where(residue_change_mask)[0] + 1\n    residue_starts[:] = 0\n'),
+        ('def apply_residue_wise(',
+         'try:\n    raise ImportError\nexcept ImportError:\n    pass\nelse:\n    def get_residue_starts(array, add_exclusive_stop=False):\n        if array.array_length() == 0:\n            if add_exclusive_stop:\n                return np.array([0], dtype=int)\n            return np.array([], dtype=int)\n        chain_id_changes = array.chain_id[1:] != array.chain_id[:-1]\n        res_id_changes = array.res_id[1:] != array.res_id[:-1]\n        ins_code_changes = array.ins_code[1:] != array.ins_code[:-1]\n        res_name_changes = array.res_name[1:] != array.res_name[:-1]\n        residue_change_mask = chain_id_changes | res_id_changes | ins_code_changes | res_name_changes\n        residue_starts = np.where(residue_change_mask)[0] + 1\n        if add_exclusive_stop:\n            return np.concatenate(([0], residue_starts, [array.array_length()]))\n        else:\n            return np.concatenate(([0], residue_starts))\n\n\ndef apply_residue_wise('),
+    ]),
+    'Em8c': ('C17', 'structure/residues.py', [
+        ('def apply_residue_wise(',
+         'def _other(array, add_exclusive_stop=False):\n    return np.array([0])\n\n\nget_residue_starts = _other\n\n\ndef apply_residue_wise('),
+    ]),
+    'Em8d': ('C11', 'sequence/align/cigar.py', [
+        ('    HARD_CLIP = 5\n',
+         '    HARD_CLIP = 4\n'),
+        ('_str_to_op = {\n',
+         'if False:\n    class CigarOp(enum.IntEnum):\n        MATCH = 0\n        INSERTION = 1\n        DELETION = 2\n        INTRON = 3\n        SOFT_CLIP = 4\n        HARD_CLIP = 5\n        PADDING = 6\n        EQUAL = 7\n        DIFFERENT = 8\n        BACK = 9\n\n_str_to_op = {\n'),
+    ]),
+    'Em9': ('C13', 'sequence/annotation.py', [
+        ('                        locs_in_scope.append(Location(first, last, loc.strand, defect))\n',
+         '                        from sys import maxsize as last\n                        locs_in_scope.append(Location(first, last, loc.strand, defect))\n'),
+    ]),
+    'Em9b': ('C13', 'sequence/annotation.py', [
+        ('                        locs_in_scope.append(Location(first, last, loc.strand, defect))\n',
+         '                        _unused = (0, (last := sys.maxsize))\n                        locs_in_scope.append(Location(first, last, loc.strand, defect))\n'),
+    ]),
+    'Em9c': ('C13', 'sequence/annotation.py', [
+        ('                        locs_in_scope.append(Location(first, last, loc.strand, defect))\n',
+         '                        try:\n                            raise ValueError(0)\n                        except ValueError as last:\n                            pass\n                        locs_in_scope.append(Location(first, last, loc.strand, defect))\n'),
+    ]),
+    'Em10': ('C13', 'sequence/annotation.py', [
+        ('                        locs_in_scope.append(Location(first, last, loc.strand, defect))\n',
+         '                        locs_in_scope.extend(Location(first, last, loc.strand, defect) for last in (sys.maxsize,))\n'),
+    ]),
+    'Em10b': ('C13', 'sequence/annotation.py', [
+        ('                        locs_in_scope.append(Location(first, last, loc.strand, defect))\n',
+         '                        locs_in_scope.append((lambda last: Location(first, last, loc.strand, defect))(sys.maxsize))\n'),
+    ]),
+    'Em11': ('C16', 'structure/superimpose.py', [
+        ('        mob_filtered = mob_coord[:, atom_mask, :]\n        fix_filtered = fix_coord[:, atom_mask, :]\n',
+         '        mob_filtered = mob_coord[:, atom_mask + 0, :]\n        fix_filtered = fix_coord[:, atom_mask + 0, :]\n'),
+    ]),
+    'Em11b': ('C16', 'structure/superimpose.py', [
+        ('        mob_filtered = mob_coord[:, atom_mask, :]\n        fix_filtered = fix_coord[:, atom_mask, :]\n',
+         '        mob_filtered = mob_coord[:, atom_mask - 0, :]\n        fix_filtered = fix_coord[:, atom_mask - 0, :]\n'),
+    ]),
+    'Em12': ('C17', 'structure/residues.py', [
+        ('    residue_change_mask = (\n        chain_id_changes | res_id_changes | ins_code_changes | res_name_changes\n    )\n',
+         '    residue_change_mask = (\n        chain_id_changes | res_id_changes | ins_code_changes | res_name_changes | np.zeros((1, 1), dtype=bool)\n    )\n'),
+    ]),
+    'Em13': ('C03', 'sequence/codon.py', [
+        ('    def _to_codon(numbers):\n',
+         '    def _to_codon(numbers, _radix=5):\n'),
+    ]),
+    'Em13b': ('C03', 'sequence/codon.py', [
+        ('    def _to_number(codons):\n',
+         '    def _to_number(codons, _radix_multiplier=np.array([1, 4, 16])):\n'),
+    ]),
+    'Em14': ('C17', 'structure/residues.py', [
+        ('def get_residue_starts(array, add_exclusive_stop=False):\n',
+         'def _shifted(f):\n    return lambda *a, **k: f(*a, **k) + 1\n\n\n@_shifted\ndef get_residue_starts(array, add_exclusive_stop=False):\n'),
+    ]),
+    'Em14b': ('C15', 'structure/atoms.py', [
+        ('def coord(item):\n',
+         'def _rounded(f):\n    return lambda item: np.round(f(item))\n\n\n@_rounded\ndef coord(item):\n'),
+    ]),
+    'Em15b': ('C20', 'application/application.py', [
+        ('            if timeout is not None and time.time() - self._start_time > timeout:\n',
+         '            if timeout is not None and timeout != False and time.time() - self._start_time > timeout:\n'),
+    ]),
+    'Em15c': ('C20', 'application/application.py', [
+        ('            if timeout is not None and time.time() - self._start_time > timeout:\n',
+         '            if [t for t in [timeout] if t] and time.time() - self._start_time > timeout:\n'),
+    ]),
+    'Em15d': ('C20', 'application/application.py', [
+        ('            if timeout is not None and time.time() - self._start_time > timeout:\n',
+         '            if list(filter(None, [timeout])) and time.time() - self._start_time > timeout:\n'),
+    ]),
+    'Em15e': ('C20', 'application/application.py', [
+        ('            if timeout is not None and time.time() - self._start_time > timeout:\n',
+         '            limit = [timeout][0]\n            if limit and time.time() - self._start_time > timeout:\n'),
+    ]),
+    'Em15f': ('C20', 'application/application.py', [
+        ('            if timeout is not None and time.time() - self._start_time > timeout:\n',
+         '            given = lambda t: t\n            if given(timeout) and time.time() - self._start_time > timeout:\n'),
+    ]),
+    'Em16': ('C03', 'sequence/seqtypes.py', [
+        ('            sequence = [symbol.upper() for symbol in sequence]\n',
+         '            upper = (symbol.upper() for symbol in sequence)\n            sequence = upper\n'),
+    ]),
+    'Em16b': ('C03', 'sequence/seqtypes.py', [
+        ('            sequence = [symbol.upper() for symbol in sequence]\n',
+         '            sequence = (symbol.upper() for symbol in sequence) if True else None\n'),
+    ]),
+    'Em16c': ('C03', 'sequence/seqtypes.py', [
+        ('            sequence = [symbol.upper() for symbol in sequence]\n',
+         '            def _up(seq):\n                for symbol in seq:\n                    yield symbol.upper()\n            sequence = _up(sequence)\n'),
+    ]),
+    'Em16d': ('C03', 'sequence/seqtypes.py', [
+        ('            sequence = [symbol.upper() for symbol in sequence]\n',
+         '            import itertools as it\n            sequence = it.chain([symbol.upper() for symbol in sequence])\n'),
+    ]),
+    'Em16e': ('C03', 'sequence/seqtypes.py', [
+        ('            sequence = [symbol.upper() for symbol in sequence]\n',
+         '            sequence = [symbol.upper() for symbol in sequence].__iter__()\n'),
+    ]),
+    'Em17': ('C05', 'structure/io/pdbx/compress.py', [
+        ('    data = _compress_data(bcif_column.data, float_tolerance)\n',
+         "    data = globals()['_compress_data'](bcif_column.data, 1e-6)\n"),
+    ]),
+    'Em17b': ('C05', 'structure/io/pdbx/compress.py', [
+        ('    data = _compress_data(bcif_column.data, float_tolerance)\n',
+         "    data = eval('_compress_data')(bcif_column.data, 1e-6)\n"),
+    ]),
+    'Em18': ('C04', 'structure/io/pdbx/convert.py', [
+        ('    _check_non_empty(array)\n\n    block = _get_or_create_block(pdbx_file, data_block)\n    Category = block.subcomponent_class()\n',
+         '    _check_non_empty(array)\n\n    block = _get_or_create_block(pdbx_file, data_block)\n    Category = block.subcomponent_class()\n    array.res_id.__ifloordiv__(2)\n'),
+    ]),
+    'Em18b': ('C04', 'structure/io/pdbx/convert.py', [
+        ('    _check_non_empty(array)\n\n    block = _get_or_create_block(pdbx_file, data_block)\n    Category = block.subcomponent_class()\n',
+         '    _check_non_empty(array)\n\n    block = _get_or_create_block(pdbx_file, data_block)\n    Category = block.subcomponent_class()\n    import operator\n    operator.isub(array.res_id, 1)\n'),
+    ]),
+    'Em18c': ('C04', 'structure/io/pdbx/convert.py', [
+        ('    _check_non_empty(array)\n\n    block = _get_or_create_block(pdbx_file, data_block)\n    Category = block.subcomponent_class()\n',
+         '    _check_non_empty(array)\n\n    block = _get_or_create_block(pdbx_file, data_block)\n    Category = block.subcomponent_class()\n    import operator\n    operator.setitem(array.res_id, slice(None), 0)\n'),
+    ]),
+    'Em18d': ('C04', 'structure/io/pdbx/convert.py', [
+        ('    _check_non_empty(array)\n\n    block = _get_or_create_block(pdbx_file, data_block)\n    Category = block.subcomponent_class()\n',
+         '    _check_non_empty(array)\n\n    block = _get_or_create_block(pdbx_file, data_block)\n    Category = block.subcomponent_class()\n    array.res_id.setfield(0, array.res_id.dtype)\n'),
+    ]),
+    'Em18e': ('C04', 'structure/io/pdbx/convert.py', [
+        ('    _check_non_empty(array)\n\n    block = _get_or_create_block(pdbx_file, data_block)\n    Category = block.subcomponent_class()\n',
+         '    _check_non_empty(array)\n\n    block = _get_or_create_block(pdbx_file, data_block)\n    Category = block.subcomponent_class()\n    type(array.res_id).__setitem__(array.res_id, slice(None), 0)\n'),
+    ]),
+    'Em18f': ('C04', 'structure/io/pdbx/convert.py', [
+        ('    _check_non_empty(array)\n\n    block = _get_or_create_block(pdbx_file, data_block)\n    Category = block.subcomponent_class()\n',
+         "    _check_non_empty(array)\n\n    block = _get_or_create_block(pdbx_file, data_block)\n    Category = block.subcomponent_class()\n    vars(array)['_coord'] = array.coord * 0\n"),
+    ]),
+    'Em18g': ('C05', 'structure/io/pdbx/bcif.py', [
+        ('            array = self._data.array.astype(dtype, copy=True)\n            if masked_value is None:\n',
+         "            array = self._data.array.astype(dtype, copy=True)\n            if masked_value is None:\n                import operator\n                operator.setitem(self._data.array, self._mask.array == MaskValue.INAPPLICABLE, '.')\n"),
+    ]),
+    'Em19': ('C13', 'sequence/annotation.py', [
+        ('            self._features = set(features)\n',
+         "            vars(self)['_features'] = features\n"),
+    ]),
+    'Em19b': ('C13', 'sequence/annotation.py', [
+        ('            self._features = set(features)\n',
+         "            object.__setattr__(self, '_features', features)\n"),
+    ]),
+    'Em19c': ('C13', 'sequence/annotation.py', [
+        ('            self._features = set(features)\n',
+         '            self.__dict__.update(_features=features)\n'),
+    ]),
+    'Em20': ('C14', 'structure/celllist.pyx', [
+        ('        cdef float32 sq_dist\n',
+         '        cdef int sq_dist\n'),
+    ]),
+    'Em20b': ('C14', 'structure/celllist.pyx', [
+        ('cdef inline float32 squared_distance(',
+         'cdef inline int squared_distance('),
+    ]),
+    'Em20c': ('C14', 'structure/celllist.pyx', [
+        ('    cdef float32 diff_x = x2 - x1\n',
+         '    cdef int diff_x = x2 - x1\n'),
+    ]),
+    'Em21': ('C14', 'structure/celllist.pyx', [
+        ('                                    list_ptr = <int*>cells[adj_i, adj_j, adj_k]\n                                    length = cell_length[adj_i, adj_j, adj_k]\n',
+         '                                    try:\n                                        adj_k = adj_k + 1\n                                        raise ValueError\n                                    except ValueError:\n                                        list_ptr = <int*>cells[adj_i, adj_j, adj_k]\n                                        length = cell_length[adj_i, adj_j, adj_k]\n'),
+    ]),
+    'Em21b': ('C14', 'structure/celllist.pyx', [
+        ('                                    list_ptr = <int*>cells[adj_i, adj_j, adj_k]\n                                    length = cell_length[adj_i, adj_j, adj_k]\n',
+         '                                    try:\n                                        adj_k = adj_k + 1\n                                    except ValueError:\n                                        pass\n                                    else:\n                                        list_ptr = <int*>cells[adj_i, adj_j, adj_k]\n                                        length = cell_length[adj_i, adj_j, adj_k]\n'),
+    ]),
+    'Em21c': ('C14', 'structure/celllist.pyx', [
+        ('                                    list_ptr = <int*>cells[adj_i, adj_j, adj_k]\n                                    length = cell_length[adj_i, adj_j, adj_k]\n',
+         '                                    try:\n                                        adj_k = adj_k + 1\n                                    finally:\n                                        list_ptr = <int*>cells[adj_i, adj_j, adj_k]\n                                        length = cell_length[adj_i, adj_j, adj_k]\n'),
+    ]),
+    'Em22': ('C14', 'structure/celllist.pyx', [
+        ('            for adj_i in range(i-cell_r, i+cell_r+1):\n                if (adj_i >= 0 and adj_i < cells.shape[0]):\n                    for adj_j in range(j-cell_r, j+cell_r+1):\n',
+         '            for adj_i in range(max(i-cell_r, 0), min(i+cell_r+1, cells.shape[0])):\n                if True:\n                    for adj_j in range(j-cell_r, j+cell_r+1):\n'),
+        ('                                        array_i += 1\n',
+         '                                        array_i += 1\n                cells = self._cells[:1, :, :]\n                cell_length = self._cell_length[:1, :, :]\n'),
+    ]),
+    'Em23': ('C14', 'structure/celllist.pyx', [
+        ('            for adj_i in range(i-cell_r, i+cell_r+1):\n                if (adj_i >= 0 and adj_i < cells.shape[0]):\n                    for adj_j in range(j-cell_r, j+cell_r+1):\n',
+         '            for adj_i in range(max(i-cell_r, 0), min(i+cell_r+1, cells.shape[0])):\n                if True:\n                    for adj_j in range(j-cell_r, j+cell_r+1):\n'),
+        ('cdef inline void deallocate_ptrs(',
+         'cdef inline int min(int a, int b):\n    return a\n\n\ncdef inline void deallocate_ptrs('),
+    ]),
+    'Eal-1': ('C17', 'structure/residues.py', [
+        ('    residue_starts = np.where(residue_change_mask)[0] + 1\n',
+         '    residue_starts = np.where(residue_change_mask)[0] + 1\n    view = np.ix_(residue_starts)[0]\n    view[:] = 0\n'),
+    ]),
+    'Eal-1b': ('C17', 'structure/residues.py', [
+        ('    residue_starts = np.where(residue_change_mask)[0] + 1\n',
+         '    residue_starts = np.where(residue_change_mask)[0] + 1\n    view = np.int64(residue_starts)\n    view[:] = 0\n'),
+    ]),
+    'Eal-1c': ('C17', 'structure/residues.py', [
+        ('    residue_starts = np.where(residue_change_mask)[0] + 1\n',
+         '    residue_starts = np.where(residue_change_mask)[0] + 1\n    view = np.diff(residue_starts, 0)\n    view[:] = 0\n'),
+    ]),
+    'Eal-1d': ('C17', 'structure/residues.py', [
+        ('    residue_starts = np.where(residue_change_mask)[0] + 1\n',
+         '    residue_starts = np.where(residue_change_mask)[0] + 1\n    view = np.histogram(residue_starts, residue_starts)[1]\n    view[:] = 0\n'),
+    ]),
+    'Eal-1e': ('C11', 'sequence/align/cigar.py', [
+        ('        seg_codes = symbol_codes[segment_index, :]\n',
+         '        seg_codes = symbol_codes[segment_index, :]\n        u = np.ix_(seg_codes)[0]\n        u[:] = 0\n'),
+    ]),
+    'Eal-2': ('C17', 'structure/residues.py', [
+        ('    residue_starts = np.where(residue_change_mask)[0] + 1\n',
+         '    residue_starts = np.where(residue_change_mask)[0] + 1\n    view = slice(residue_starts).stop\n    view[:] = 0\n'),
+    ]),
+    'Eal-2b': ('C17', 'structure/residues.py', [
+        ('    residue_starts = np.where(residue_change_mask)[0] + 1\n',
+         '    residue_starts = np.where(residue_change_mask)[0] + 1\n    view = sum([], residue_starts)\n    view[:] = 0\n'),
+    ]),
+    'Eal-2c': ('C17', 'structure/residues.py', [
+        ('    residue_starts = np.where(residue_change_mask)[0] + 1\n',
+         '    residue_starts = np.where(residue_change_mask)[0] + 1\n    import math\n    view = math.prod([], start=residue_starts)\n    view[:] = 0\n'),
+    ]),
+    'Eal-3': ('C17', 'structure/residues.py', [
+        ('    residue_starts = np.where(residue_change_mask)[0] + 1\n',
+         '    residue_starts = np.where(residue_change_mask)[0] + 1\n    view = np.array([residue_starts, None], dtype=object)[0]\n    view[:] = 0\n'),
+    ]),
+    'Eal-3b': ('C17', 'structure/residues.py', [
+        ('    residue_starts = np.where(residue_change_mask)[0] + 1\n',
+         '    residue_starts = np.where(residue_change_mask)[0] + 1\n    box = np.empty(1, dtype=object)\n    box[0] = residue_starts\n    view = box.item(0)\n    view[:] = 0\n'),
+    ]),
+    'Eal-3c': ('C17', 'structure/residues.py', [
+        ('    residue_starts = np.where(residue_change_mask)[0] + 1\n',
+         '    residue_starts = np.where(residue_change_mask)[0] + 1\n    box = np.empty(1, dtype=object)\n    box[0] = residue_starts\n    view = box.tolist()[0]\n    view[:] = 0\n'),
+    ]),
+    'Eal-3d': ('C17', 'structure/residues.py', [
+        ('    residue_starts = np.where(residue_change_mask)[0] + 1\n',
+         '    residue_starts = np.where(residue_change_mask)[0] + 1\n    box = np.empty(1, dtype=object)\n    box[0] = residue_starts\n    view = box.sum()\n    view[:] = 0\n'),
+    ]),
+    'Eal-3e': ('C17', 'structure/residues.py', [
+        ('    residue_starts = np.where(residue_change_mask)[0] + 1\n',
+         '    residue_starts = np.where(residue_change_mask)[0] + 1\n    import types\n    box = types.SimpleNamespace(v=residue_starts)\n    box.v[:] = 0\n'),
+    ]),
+    'Eal-4': ('C17', 'structure/residues.py', [
+        ('    residue_starts = np.where(residue_change_mask)[0] + 1\n',
+         '    residue_starts = np.where(residue_change_mask)[0] + 1\n    io = None\n    io = residue_starts\n    view = io.view()\n    view[:] = 0\n'),
+    ]),
+    'Eal-4b': ('C17', 'structure/residues.py', [
+        ('    residue_starts = np.where(residue_change_mask)[0] + 1\n',
+         '    residue_starts = np.where(residue_change_mask)[0] + 1\n    re = None\n    re = {0: residue_starts}\n    view = re.get(0)\n    view[:] = 0\n'),
+    ]),
+    'Eal-4c': ('C17', 'structure/residues.py', [
+        ('    residue_starts = np.where(residue_change_mask)[0] + 1\n',
+         '    residue_starts = np.where(residue_change_mask)[0] + 1\n    Paths = None\n    Paths = [residue_starts]\n    view = Paths.__getitem__(0)\n    view[:] = 0\n'),
+    ]),
+    'Eal-5': ('C17', 'structure/residues.py', [
+        ('    residue_starts = np.where(residue_change_mask)[0] + 1\n',
+         "    residue_starts = np.where(residue_change_mask)[0] + 1\n    locals()['residue_starts'][:] = 0\n"),
+    ]),
+    'Eal-5b': ('C17', 'structure/residues.py', [
+        ('    residue_starts = np.where(residue_change_mask)[0] + 1\n',
+         "    residue_starts = np.where(residue_change_mask)[0] + 1\n    view = vars()['residue_starts']\n    view[:] = 0\n"),
+    ]),
+    'Eal-5c': ('C17', 'structure/residues.py', [
+        ('    residue_starts = np.where(residue_change_mask)[0] + 1\n',
+         "    residue_starts = np.where(residue_change_mask)[0] + 1\n    import sys\n    view = sys._getframe().f_locals['residue_starts']\n    view[:] = 0\n"),
+    ]),
+    'Eal-6': ('C17', 'structure/residues.py', [
+        ('    residue_starts = np.where(residue_change_mask)[0] + 1\n',
+         '    residue_starts = np.where(residue_change_mask)[0] + 1\n    box = []\n    _ = list.append(box, residue_starts)\n    box[0][:] = 0\n'),
+    ]),
+    'Eal-6b': ('C17', 'structure/residues.py', [
+        ('    residue_starts = np.where(residue_change_mask)[0] + 1\n',
+         '    residue_starts = np.where(residue_change_mask)[0] + 1\n    import heapq\n    box = []\n    _ = heapq.heappush(box, residue_starts)\n    box[0][:] = 0\n'),
+    ]),
+    'Eal-7': ('C17', 'structure/residues.py', [
+        ('    residue_starts = np.where(residue_change_mask)[0] + 1\n',
+         '    residue_starts = np.where(residue_change_mask)[0] + 1\n    g = None\n    g = residue_starts.view\n    view = g()\n    view[:] = 0\n'),
+    ]),
+    'Eal-7b': ('C17', 'structure/residues.py', [
+        ('    residue_starts = np.where(residue_change_mask)[0] + 1\n',
+         '    residue_starts = np.where(residue_change_mask)[0] + 1\n    g = None\n    g = np.asarray\n    view = g(residue_starts)\n    view[:] = 0\n'),
+    ]),
+    'Eal-8': ('C17', 'structure/residues.py', [
+        ('    residue_starts = np.where(residue_change_mask)[0] + 1\n',
+         '    residue_starts = np.where(residue_change_mask)[0] + 1\n    view = np.atleast_1d(0, residue_starts)[1]\n    view[:] = 0\n'),
+    ]),
+    'Eal-8b': ('C17', 'structure/residues.py', [
+        ('    residue_starts = np.where(residue_change_mask)[0] + 1\n',
+         '    residue_starts = np.where(residue_change_mask)[0] + 1\n    view = np.broadcast_arrays(residue_starts * 0, residue_starts)[1]\n    view[:] = 0\n'),
+    ]),
+    'Eal-9': ('C17', 'structure/residues.py', [
+        ('    residue_starts = np.where(residue_change_mask)[0] + 1\n',
+         '    residue_starts = np.where(residue_change_mask)[0] + 1\n    box = None\n    box = [residue_starts]\n    box2 = box * 1\n    box2[0][:] = 0\n'),
+    ]),
+    'Eal-9b': ('C17', 'structure/residues.py', [
+        ('    residue_starts = np.where(residue_change_mask)[0] + 1\n',
+         '    residue_starts = np.where(residue_change_mask)[0] + 1\n    box = None\n    box = [residue_starts]\n    box2 = box + box\n    box2[0][:] = 0\n'),
+    ]),
+    'Eal-9c': ('C17', 'structure/residues.py', [
+        ('    residue_starts = np.where(residue_change_mask)[0] + 1\n',
+         '    residue_starts = np.where(residue_change_mask)[0] + 1\n    box = None\n    box = [residue_starts]\n    view = box.copy()[0]\n    view[:] = 0\n'),
+    ]),
+    'Eal-10': ('C17', 'structure/residues.py', [
+        ('    residue_starts = np.where(residue_change_mask)[0] + 1\n',
+         '    residue_starts = np.where(residue_change_mask)[0] + 1\n    box = None\n    box = [residue_starts]\n    it = box.__reversed__()\n    view = next(it)\n    view[:] = len(box) * 0\n'),
+    ]),
+    'Eal-11d': ('C20', 'application/sra/app.py', [
+        ('        self._fastq_files = None\n',
+         "        self._fastq_files = None\n        self.__dict__['_file_names'] = []\n"),
+    ]),
+    'Eal-11e': ('C17', 'structure/residues.py', [
+        ('    residue_starts = np.where(residue_change_mask)[0] + 1\n',
+         '    residue_starts = np.where(residue_change_mask)[0] + 1\n    import types\n    self = types.SimpleNamespace()\n    self.a = residue_starts\n    self.a[:] = 0\n'),
+    ]),
+    'Eal-12': ('C04', 'structure/io/pdbx/convert.py', [
+        ('    _check_non_empty(array)\n\n    block = _get_or_create_block(pdbx_file, data_block)\n    Category = block.subcomponent_class()\n',
+         '    _check_non_empty(array)\n\n    block = _get_or_create_block(pdbx_file, data_block)\n    Category = block.subcomponent_class()\n    match 0:\n        case _:\n            array.res_id[:] = 0\n'),
+    ]),
+    'Eal-12b': ('C04', 'structure/io/pdbx/convert.py', [
+        ('    _check_non_empty(array)\n\n    block = _get_or_create_block(pdbx_file, data_block)\n    Category = block.subcomponent_class()\n',
+         '    _check_non_empty(array)\n\n    block = _get_or_create_block(pdbx_file, data_block)\n    Category = block.subcomponent_class()\n    class _K:\n        array.res_id[:] = 0\n'),
+    ]),
+    'Eal-12c': ('C04', 'structure/io/pdbx/convert.py', [
+        ('    _check_non_empty(array)\n\n    block = _get_or_create_block(pdbx_file, data_block)\n    Category = block.subcomponent_class()\n',
+         '    _check_non_empty(array)\n\n    block = _get_or_create_block(pdbx_file, data_block)\n    Category = block.subcomponent_class()\n    try:\n        pass\n    except* ValueError:\n        pass\n    else:\n        array.res_id[:] = 0\n'),
+    ]),
+    'Eal-13': ('C04', 'structure/io/pdbx/convert.py', [
+        ('    _check_non_empty(array)\n\n    block = _get_or_create_block(pdbx_file, data_block)\n    Category = block.subcomponent_class()\n',
+         '    _check_non_empty(array)\n\n    block = _get_or_create_block(pdbx_file, data_block)\n    Category = block.subcomponent_class()\n    array.res_id[0]: int = 0\n'),
+    ]),
+    'Eal-13b': ('C04', 'structure/io/pdbx/convert.py', [
+        ('    _check_non_empty(array)\n\n    block = _get_or_create_block(pdbx_file, data_block)\n    Category = block.subcomponent_class()\n',
+         '    _check_non_empty(array)\n\n    block = _get_or_create_block(pdbx_file, data_block)\n    Category = block.subcomponent_class()\n    for array.res_id[0] in [0]:\n        pass\n'),
+    ]),
+    'Eal-13c': ('C04', 'structure/io/pdbx/convert.py', [
+        ('    _check_non_empty(array)\n\n    block = _get_or_create_block(pdbx_file, data_block)\n    Category = block.subcomponent_class()\n',
+         '    _check_non_empty(array)\n\n    block = _get_or_create_block(pdbx_file, data_block)\n    Category = block.subcomponent_class()\n    import contextlib\n    with contextlib.nullcontext(0) as array.res_id[0]:\n        pass\n'),
+    ]),
+    'Eal-14': ('C04', 'structure/io/pdbx/convert.py', [
+        ('    _check_non_empty(array)\n\n    block = _get_or_create_block(pdbx_file, data_block)\n    Category = block.subcomponent_class()\n',
+         '    _check_non_empty(array)\n\n    block = _get_or_create_block(pdbx_file, data_block)\n    Category = block.subcomponent_class()\n    [a.fill(0) for a in (array.res_id,) * 1]\n'),
+    ]),
+    'Eal-14b': ('C04', 'structure/io/pdbx/convert.py', [
+        ('    _check_non_empty(array)\n\n    block = _get_or_create_block(pdbx_file, data_block)\n    Category = block.subcomponent_class()\n',
+         '    _check_non_empty(array)\n\n    block = _get_or_create_block(pdbx_file, data_block)\n    Category = block.subcomponent_class()\n    (lambda a: a.fill(0))(array.res_id)\n'),
+    ]),
+    'Eal-15': ('C17', 'structure/residues.py', [
+        ('    residue_starts = np.where(residue_change_mask)[0] + 1\n',
+         '    residue_starts = np.where(residue_change_mask)[0] + 1\n    nx = None\n    nx = residue_starts\n    nx.fill(0)\n'),
+    ]),
+    'Eal-15b': ('C17', 'structure/residues.py', [
+        ('    residue_starts = np.where(residue_change_mask)[0] + 1\n',
+         '    residue_starts = np.where(residue_change_mask)[0] + 1\n    re = None\n    re = residue_starts\n    _ = np.negative(re, out=re)\n'),
+    ]),
+    'Eal-16': ('C17', 'structure/residues.py', [
+        ('    residue_starts = np.where(residue_change_mask)[0] + 1\n',
+         '    residue_starts = np.where(residue_change_mask)[0] + 1\n    R = None\n    R = residue_starts\n    for _k in range(1):\n        R.T[:] = 0\n'),
+    ]),
+    'Eal-16b': ('C17', 'structure/residues.py', [
+        ('    residue_starts = np.where(residue_change_mask)[0] + 1\n',
+         '    residue_starts = np.where(residue_change_mask)[0] + 1\n    R = None\n    R = residue_starts\n    for _k in range(1):\n        R.T.fill(0)\n'),
+    ]),
+    'Eal-17': ('C17', 'structure/residues.py', [
+        ('    residue_starts = np.where(residue_change_mask)[0] + 1\n',
+         '    residue_starts = np.where(residue_change_mask)[0] + 1\n    e = None\n    e = ValueError(residue_starts)\n    try:\n        raise e\n    except ValueError as err:\n        err.args[0][:] = 0\n'),
+    ]),
+    'Eal-17b': ('C17', 'structure/residues.py', [
+        ('    residue_starts = np.where(residue_change_mask)[0] + 1\n',
+         '    residue_starts = np.where(residue_change_mask)[0] + 1\n    try:\n        raise ValueError() from KeyError(residue_starts)\n    except ValueError as err:\n        err.__cause__.args[0][:] = 0\n'),
+    ]),
+    'Eal-18': ('C04', 'structure/io/pdbx/convert.py', [
+        ('    _check_non_empty(array)\n\n    block = _get_or_create_block(pdbx_file, data_block)\n    Category = block.subcomponent_class()\n',
+         "    _check_non_empty(array)\n\n    block = _get_or_create_block(pdbx_file, data_block)\n    Category = block.subcomponent_class()\n    f = None\n    f = _filter_altloc\n    f(array, Category({'label_alt_id': ['X'] * array.array_length()}), 'all')\n"),
+    ]),
+    'Eal-18b': ('C04', 'structure/io/pdbx/convert.py', [
+        ('    _check_non_empty(array)\n\n    block = _get_or_create_block(pdbx_file, data_block)\n    Category = block.subcomponent_class()\n',
+         "    _check_non_empty(array)\n\n    block = _get_or_create_block(pdbx_file, data_block)\n    Category = block.subcomponent_class()\n    list(map(_filter_altloc, [array], [Category({'label_alt_id': ['X'] * array.array_length()})], ['all']))\n"),
+    ]),
+    'Eal-19': ('C17', 'structure/residues.py', [
+        ('    residue_starts = np.where(residue_change_mask)[0] + 1\n',
+         '    residue_starts = np.where(residue_change_mask)[0] + 1\n    import types\n    box = types.SimpleNamespace()\n    box.max_size = residue_starts\n    box.max_size[:] = 0\n'),
+    ]),
+    'Eal-19b': ('C17', 'structure/residues.py', [
+        ('    residue_starts = np.where(residue_change_mask)[0] + 1\n',
+         '    residue_starts = np.where(residue_change_mask)[0] + 1\n    import types\n    box = types.SimpleNamespace()\n    box.name = residue_starts\n    view = box.name\n    view[:] = 0\n'),
+    ]),
+    'Enz1-1': ('C17', 'structure/residues.py', [
+        ('    chain_id_changes = array.chain_id[1:] != array.chain_id[:-1]\n    res_id_changes = array.res_id[1:] != array.res_id[:-1]\n    ins_code_changes = array.ins_code[1:] != array.ins_code[:-1]\n    res_name_changes = array.res_name[1:] != array.res_name[:-1]\n',
+         '    col = array.chain_id\n    def _changes(column):\n        return column[1:] != col[:-1]\n    chain_id_changes, res_id_changes, ins_code_changes, res_name_changes = [\n        _changes(col) for col in (array.chain_id, array.res_id, array.ins_code, array.res_name)\n    ]\n'),
+    ]),
+    'Enz1-2': ('C17', 'structure/residues.py', [
+        ('def get_residue_starts(array, add_exclusive_stop=False):\n',
+         'offset = np.intp(0)\n\n\ndef _starts_of(mask):\n    checked = [offset for offset in np.where(mask)[0] if offset < 0]\n    return np.where(mask)[0] + offset\n\n\ndef get_residue_starts(array, add_exclusive_stop=False):\n'),
+        ('    residue_starts = np.where(residue_change_mask)[0] + 1\n',
+         '    offset = 1\n    residue_starts = _starts_of(residue_change_mask)\n'),
+    ]),
+    'Enz1-3': ('C17', 'structure/residues.py', [
+        ('def get_residue_starts(array, add_exclusive_stop=False):\n',
+         'def _chain_changes(prev, arrays):\n    return [a.chain_id[1:] != prev.chain_id[:-1] for a in arrays]\n\n\ndef get_residue_starts(array, add_exclusive_stop=False):\n'),
+        ('    chain_id_changes = array.chain_id[1:] != array.chain_id[:-1]\n',
+         '    a = array[::-1]\n    (chain_id_changes,) = _chain_changes(a, (array,))\n'),
+    ]),
+    'Enz1-4': ('C15', 'structure/geometry.py', [
+        ('        fractions = fractions % 1\n',
+         '        fractions += (fractions := fractions % 1) * 0\n'),
+    ]),
+    'Enz1-4b': ('C11', 'sequence/align/cigar.py', [
+        ('    seg_pos = 0\n',
+         '    seg_pos = 1\n    seg_pos += (seg_pos := 0)\n'),
+    ]),
+    'Enz1-5': ('C17', 'structure/residues.py', [
+        ('def get_residue_starts(array, add_exclusive_stop=False):\n',
+         'def _starts_of(mask):\n    mask[1:] = False\n    return np.where(mask)[0] + 1\n\n\ndef get_residue_starts(array, add_exclusive_stop=False):\n'),
+        ('    residue_change_mask = (\n        chain_id_changes | res_id_changes | ins_code_changes | res_name_changes\n    )\n',
+         ''),
+        ('    residue_starts = np.where(residue_change_mask)[0] + 1\n',
+         '    residue_starts = _starts_of(chain_id_changes | res_id_changes | ins_code_changes | res_name_changes)\n'),
+    ]),
+    'Enz1-5b': ('C17', 'structure/residues.py', [
+        ('def get_residue_starts(array, add_exclusive_stop=False):\n',
+         'def _starts_of(mask, shift):\n    shift[0] = 0\n    return np.where(mask)[0] + shift[0]\n\n\ndef get_residue_starts(array, add_exclusive_stop=False):\n'),
+        ('    residue_starts = np.where(residue_change_mask)[0] + 1\n',
+         '    residue_starts = _starts_of(residue_change_mask, [1])\n'),
+    ]),
+    'Enz1-5c': ('C17', 'structure/residues.py', [
+        ('def get_residue_starts(array, add_exclusive_stop=False):\n',
+         'def _starts_of(mask, shift=[1]):\n    starts = np.where(mask)[0] + shift[0]\n    shift[0] = 0\n    return starts\n\n\ndef get_residue_starts(array, add_exclusive_stop=False):\n'),
+        ('    residue_starts = np.where(residue_change_mask)[0] + 1\n',
+         '    residue_starts = _starts_of(residue_change_mask)\n'),
+    ]),
+    'Enz1-6': ('C17', 'structure/residues.py', [
+        ('def get_residue_starts(array, add_exclusive_stop=False):\n',
+         'def clear_interior(mask):\n    mask[1:-1] = False\n\n\ndef get_residue_starts(array, add_exclusive_stop=False):\n'),
+        ('    residue_starts = np.where(residue_change_mask)[0] + 1\n',
+         '    cleared = clear_interior(residue_change_mask)\n    residue_starts = np.where(residue_change_mask)[0] + 1\n'),
+    ]),
+    'Enz1-6b': ('C17', 'structure/residues.py', [
+        ('def get_residue_starts(array, add_exclusive_stop=False):\n',
+         'def clear_interior(mask):\n    mask[1:-1] = False\n\n\ndef _starts_of(mask):\n    cleared = clear_interior(mask)\n    return np.where(mask)[0] + 1\n\n\ndef get_residue_starts(array, add_exclusive_stop=False):\n'),
+        ('    residue_starts = np.where(residue_change_mask)[0] + 1\n',
+         '    residue_starts = _starts_of(residue_change_mask)\n'),
+    ]),
+    'Enz2-1': ('C17', 'structure/residues.py', [
+        ('def get_residue_starts(array, add_exclusive_stop=False):\n',
+         '_SHIFT = 1\n\n\ndef get_residue_starts(array, add_exclusive_stop=False):\n    from os import EX_OK as _SHIFT\n'),
+        ('    residue_starts = np.where(residue_change_mask)[0] + 1\n',
+         '    residue_starts = np.where(residue_change_mask)[0] + _SHIFT\n'),
+    ]),
+    'Enz2-1b': ('C17', 'structure/residues.py', [
+        ('def get_residue_starts(array, add_exclusive_stop=False):\n',
+         '_SHIFT = 1\n\n\ndef get_residue_starts(array, add_exclusive_stop=False):\n    _SHIFT = 0\n\n    def _after(idx):\n        return idx + _SHIFT\n\n'),
+        ('    residue_starts = np.where(residue_change_mask)[0] + 1\n',
+         '    residue_starts = _after(np.where(residue_change_mask)[0])\n'),
+    ]),
+    'Enz2-1c': ('C17', 'structure/residues.py', [
+        ('    residue_change_mask = (\n        chain_id_changes | res_id_changes | ins_code_changes | res_name_changes\n    )\n',
+         '    residue_change_mask = chain_id_changes\n    for change in (res_id_changes, ins_code_changes, res_name_changes):\n        from numpy import False_ as change\n        residue_change_mask = residue_change_mask | change\n'),
+    ]),
+    'Enz2-2': ('C17', 'structure/residues.py', [
+        ('def get_residue_starts(array, add_exclusive_stop=False):\n',
+         '_SHIFT = 1\n\n\ndef get_residue_starts(array, add_exclusive_stop=False):\n'),
+        ('    residue_starts = np.where(residue_change_mask)[0] + 1\n',
+         '    residue_starts = np.where(residue_change_mask)[0] + _SHIFT\n'),
+        ('def get_residue_masks(',
+         'import sys\nsys.modules[__spec__.name]._SHIFT = 2\n\n\ndef get_residue_masks('),
+    ]),
+    'Enz2-2b': ('C17', 'structure/residues.py', [
+        ('def get_residue_starts(array, add_exclusive_stop=False):\n',
+         'def _starts_of(mask):\n    return np.where(mask)[0] + 1\n\n\ndef get_residue_starts(array, add_exclusive_stop=False):\n'),
+        ('    residue_starts = np.where(residue_change_mask)[0] + 1\n',
+         '    residue_starts = _starts_of(residue_change_mask)\n'),
+        ('def get_residue_masks(',
+         'import sys\nsys.modules[__spec__.name]._starts_of = np.flatnonzero\n\n\ndef get_residue_masks('),
+    ]),
+    'Enz2-2c': ('C17', 'structure/residues.py', [
+        ('def get_residue_starts(array, add_exclusive_stop=False):\n',
+         'def _starts_of(mask, shift=1):\n    return np.where(mask)[0] + shift\n\n\n_starts_of.__defaults__ = (0,)\n\n\ndef get_residue_starts(array, add_exclusive_stop=False):\n'),
+        ('    residue_starts = np.where(residue_change_mask)[0] + 1\n',
+         '    residue_starts = _starts_of(residue_change_mask)\n'),
+    ]),
+    'Enz2-2d': ('C01', 'structure/atoms.py', [
+        ('    def __init__(self, length):\n        """\n        Create the annotation arrays\n        """\n',
+         '    _ATOM_AXIS = -2\n\n    def __init__(self, length):\n        """\n        Create the annotation arrays\n        """\n'),
+        ('            self._coord = np.delete(self._coord, index, axis=-2)',
+         '            self._coord = np.delete(self._coord, index, axis=self._ATOM_AXIS)'),
+        ('    def __init__(self, depth, length):\n        super().__init__(length)\n',
+         "    def __init__(self, depth, length):\n        super().__init__(length)\n        _set_field(self, '_ATOM_AXIS', 0)\n"),
+        ('class _AtomArrayBase(',
+         '_set_field = setattr\n\n\nclass _AtomArrayBase('),
+    ]),
+    'Enz2-2e': ('C01', 'structure/atoms.py', [
+        ('    def __init__(self, length):\n        """\n        Create the annotation arrays\n        """\n',
+         '    _ATOM_AXIS = -2\n\n    def __init__(self, length):\n        """\n        Create the annotation arrays\n        """\n'),
+        ('            self._coord = np.delete(self._coord, index, axis=-2)',
+         '            self._coord = np.delete(self._coord, index, axis=self._ATOM_AXIS)'),
+        ('class AtomArrayStack(_AtomArrayBase):',
+         "class AtomArrayStack(abc.ABCMeta('_StackAxes', (_AtomArrayBase,), {'_ATOM_AXIS': 0})):"),
+    ]),
+    'Enz2-3': ('C17', 'structure/residues.py', [
+        ('    residue_change_mask = (\n        chain_id_changes | res_id_changes | ins_code_changes | res_name_changes\n    )\n',
+         "    residue_change_mask = chain_id_changes\n    for _name, change in {'res_id': res_id_changes, 'res_id': ins_code_changes, 'res_name': res_name_changes}.items():\n        residue_change_mask = residue_change_mask | change\n"),
+    ]),
+    'Enz2-3b': ('C17', 'structure/residues.py', [
+        ('    residue_change_mask = (\n        chain_id_changes | res_id_changes | ins_code_changes | res_name_changes\n    )\n',
+         '    residue_change_mask = chain_id_changes\n    for _level, change in {1: res_id_changes, 1.0: ins_code_changes, True: res_name_changes}.items():\n        residue_change_mask = residue_change_mask | change\n'),
+    ]),
+    'Enz2-4': ('C17', 'structure/residues.py', [
+        ('    residue_starts = np.where(residue_change_mask)[0] + 1\n',
+         '    residue_starts = np.where(residue_change_mask)[0] + 1\n    for residue_starts[0] in (0,):\n        pass\n'),
+    ]),
+    'Enz2-4b': ('C17', 'structure/residues.py', [
+        ('    residue_starts = np.where(residue_change_mask)[0] + 1\n',
+         '    residue_starts = np.where(residue_change_mask)[0] + 1\n    [0 for residue_starts[0] in (0,)]\n'),
+    ]),
+    'Enz2-4c': ('C17', 'structure/residues.py', [
+        ('    residue_starts = np.where(residue_change_mask)[0] + 1\n',
+         '    residue_starts = np.where(residue_change_mask)[0] + 1\n    assert all(True for residue_starts[0] in (0,))\n'),
+    ]),
+    'Enz2-5': ('C17', 'structure/residues.py', [
+        ('def get_residue_starts(array, add_exclusive_stop=False):\n',
+         'residue_starts = np.array([], dtype=int)\n\n\ndef get_residue_starts(array, add_exclusive_stop=False):\n'),
+        ('    residue_starts = np.where(residue_change_mask)[0] + 1\n',
+         '    starts = np.where(residue_change_mask)[0] + 1\n'),
+    ]),
+    'Enz2-6': ('C04', 'structure/io/pdbx/convert.py', [
+        ('        atoms.coord[:, 0] = model_atom_site["Cartn_x"].as_array(np.float32)\n        atoms.coord[:, 1] = model_atom_site["Cartn_y"].as_array(np.float32)\n        atoms.coord[:, 2] = model_atom_site["Cartn_z"].as_array(np.float32)\n',
+         '        for dim, column_name in enumerate(("Cartn_x", "Cartn_y", "Cartn_z")):\n            atoms.coord[:, dim] = model_atom_site[column_name].as_array(np.float32)\n'),
+        ('import itertools\n',
+         'import itertools\n\n\ndef enumerate(items):\n    """index from the end (as the legacy writer did)"""\n    return zip(range(len(items) - 1, -1, -1), items)\n\n\n'),
+    ]),
+    'Enz2-6b': ('C06', 'structure/io/pdbx/cif.py', [
+        ('    elif " " in value:\n        return "\'" + value + "\'"\n    elif "\\t" in value:\n        return "\'" + value + "\'"\n',
+         '    elif any(c in value for c in (" ", "\\t")):\n        return "\'" + value + "\'"\n'),
+        ('import itertools\n',
+         'import itertools\nfrom builtins import all as any\n'),
+    ]),
+    'Enz2-7': ('C17', 'structure/residues.py', [
+        ('    residue_starts = np.where(residue_change_mask)[0] + 1\n',
+         '    residue_starts = np.where(condition=residue_change_mask)[0] + 1\n'),
+    ]),
+    'Enz2-7b': ('C17', 'structure/residues.py', [
+        ('        return np.concatenate(([0], residue_starts))\n',
+         '        return np.concatenate(arrays=([0], residue_starts))\n'),
+    ]),
+    'Enz2-8': ('C17', 'structure/residues.py', [
+        ('    residue_change_mask = (\n        chain_id_changes | res_id_changes | ins_code_changes | res_name_changes\n    )\n',
+         '    changed = chain_id_changes | res_id_changes | ins_code_changes | res_name_changes\n    np.logical_and(changed, False, out=changed)\n    residue_change_mask = changed\n'),
+    ]),
+    'Enz2-8b': ('C17', 'structure/residues.py', [
+        ('    residue_change_mask = (\n        chain_id_changes | res_id_changes | ins_code_changes | res_name_changes\n    )\n',
+         '    changed = chain_id_changes | res_id_changes | ins_code_changes | res_name_changes\n    np.putmask(changed, changed, False)\n    residue_change_mask = changed\n'),
+    ]),
+    'Enz2-8c': ('C17', 'structure/residues.py', [
+        ('    residue_change_mask = (\n        chain_id_changes | res_id_changes | ins_code_changes | res_name_changes\n    )\n',
+         '    changed = chain_id_changes | res_id_changes | ins_code_changes | res_name_changes\n    np.copyto(changed, False)\n    residue_change_mask = changed\n'),
+    ]),
+    'Enz2-8d': ('C17', 'structure/residues.py', [
+        ('    residue_change_mask = (\n        chain_id_changes | res_id_changes | ins_code_changes | res_name_changes\n    )\n',
+         '    changed = chain_id_changes | res_id_changes | ins_code_changes | res_name_changes\n    np.ndarray.fill(changed, False)\n    residue_change_mask = changed\n'),
+    ]),
+    'Enz2-9': ('C17', 'structure/residues.py', [
+        ('    residue_starts = np.where(residue_change_mask)[0] + 1\n',
+         '    shifted_1 = np.where(residue_change_mask)[0]\n    for offset in (0, 1):\n        shifted = np.where(residue_change_mask)[0] + offset\n    residue_starts = shifted_1\n'),
+    ]),
+    'Enz2-9b': ('C17', 'structure/residues.py', [
+        ('def get_residue_starts(array, add_exclusive_stop=False):\n',
+         'def _starts_of(mask):\n    idx = np.where(mask)[0] + 1\n    assert idx.ndim == 1\n    return idx\n\n\ndef get_residue_starts(array, add_exclusive_stop=False):\n'),
+        ('    residue_starts = np.where(residue_change_mask)[0] + 1\n',
+         '    _h1_idx = np.where(residue_change_mask)[0]\n    _starts_of(residue_change_mask)\n    residue_starts = _h1_idx\n'),
+    ]),
+    'Enz2-10': ('C17', 'structure/residues.py', [
+        ('    residue_starts = np.where(residue_change_mask)[0] + 1\n',
+         '    residue_starts = np.where(residue_change_mask)[0] + 1\n    import operator\n    _ = operator.setitem(residue_starts, 0, 0)\n'),
+    ]),
+    'Enz2-10b': ('C17', 'structure/residues.py', [
+        ('    residue_starts = np.where(residue_change_mask)[0] + 1\n',
+         '    residue_starts = np.where(residue_change_mask)[0] + 1\n    import operator\n    _ = operator.iadd(residue_starts, 1)\n'),
+    ]),
+    'Enz2-10c': ('C17', 'structure/residues.py', [
+        ('    residue_starts = np.where(residue_change_mask)[0] + 1\n',
+         '    residue_starts = np.where(residue_change_mask)[0] + 1\n    _ = list(map(residue_starts.__setitem__, [0], [0]))\n'),
+    ]),
+    'Enz2-11': ('C16', 'structure/superimpose.py', [
+        ('    v[reflected_mask, :, -1] *= -1\n    matrices = np.matmul(v, w)\n',
+         '    product = np.matmul(v, w)\n    rotation = product\n    v[reflected_mask, :, -1] *= -1\n    matrices = rotation\n'),
+    ]),
+    'Enz2-11b': ('C11', 'sequence/align/cigar.py', [
+        ('    op_start_indices += 1\n    op_start_indices = np.concatenate(([0], op_start_indices))\n',
+         '    with_first = np.concatenate(([0], op_start_indices))\n    starts = with_first\n    op_start_indices += 1\n    op_start_indices = starts\n'),
+    ]),
+    'Enz2-11c': ('C03', 'sequence/alphabet.py', [
+        ('        try:\n            return self._symbol_dict[symbol]\n        except KeyError:',
+         '        found = self._symbol_dict[symbol]\n        code = found\n        try:\n            return code\n        except KeyError:'),
+    ]),
+    'Enz2-11d': ('C14', 'structure/celllist.pyx', [
+        ('        cdef int cell_r\n\n        cdef ptr[:,:,:] cells',
+         '        cdef int cell_r\n        cdef int n_in_cell\n        cdef int n_here\n\n        cdef ptr[:,:,:] cells'),
+        ('                                if (adj_k >= 0 and adj_k < cells.shape[2]):\n',
+         '                                n_in_cell = cell_length[adj_i, adj_j, adj_k]\n                                n_here = n_in_cell\n                                if (adj_k >= 0 and adj_k < cells.shape[2]):\n'),
+        ('length = cell_length[adj_i, adj_j, adj_k]',
+         'length = n_here'),
+    ]),
+    'Enz2-13': ('C14', 'structure/celllist.pyx', [
+        ('        cdef int cell_r\n\n        cdef ptr[:,:,:] cells',
+         '        cdef int cell_r\n        cdef int n_in_cell\n\n        cdef ptr[:,:,:] cells'),
+        ('                                if (adj_k >= 0 and adj_k < cells.shape[2]):\n                                    # Fill index array\n                                    # with indices in cell\n                                    list_ptr = <int*>cells[adj_i, adj_j, adj_k]\n                                    length = cell_length[adj_i, adj_j, adj_k]\n                                    for cell_i in range(length):\n                                        indices[pos_i, array_i] = \\\n                                            list_ptr[cell_i]\n                                        array_i += 1\n',
+         '                                n_in_cell = cell_length[adj_i, adj_j, adj_k]\n                                if adj_k < 0 or adj_k >= cells.shape[2]:\n                                    continue\n                                list_ptr = <int*>cells[adj_i, adj_j, adj_k]\n                                length = n_in_cell\n                                for cell_i in range(length):\n                                    indices[pos_i, array_i] = \\\n                                        list_ptr[cell_i]\n                                    array_i += 1\n'),
+    ]),
+    'Enz2-12': ('C17', 'structure/residues.py', [
+        ('    residue_starts = np.where(residue_change_mask)[0] + 1\n',
+         "    residue_starts = np.where(residue_change_mask)[0] + 1\n    exec('residue_starts[0] = 0')\n"),
+    ]),
+    'Eex1-1': ('C17', 'structure/residues.py', [
+        ('    residue_starts = np.where(residue_change_mask)[0] + 1\n',
+         '    residue_starts = np.where(residue_change_mask)[0] + 1\n    _ = np.cumsum(residue_starts, 0, None, residue_starts)\n'),
+    ]),
+    'Eex1-1b': ('C17', 'structure/residues.py', [
+        ('    residue_starts = np.where(residue_change_mask)[0] + 1\n',
+         '    residue_starts = np.where(residue_change_mask)[0] + 1\n    _ = np.cumprod(residue_starts, 0, None, residue_starts)\n'),
+    ]),
+    'Eex1-1c': ('C17', 'structure/residues.py', [
+        ('    residue_starts = np.where(residue_change_mask)[0] + 1\n',
+         '    residue_starts = np.where(residue_change_mask)[0] + 1\n    _ = np.add.accumulate(residue_starts, 0, None, residue_starts)\n'),
+    ]),
+    'Eex1-1d': ('C11', 'sequence/align/cigar.py', [
+        ('        symbol_codes = get_codes(alignment)\n',
+         '        symbol_codes = get_codes(alignment)\n        np.cumsum(symbol_codes, 1, None, symbol_codes)\n'),
+    ]),
+    'Eex1-1e': ('C03', 'sequence/codon.py', [
+        ('        codons = np.zeros(numbers.shape + (3,), dtype=int)\n',
+         '        codons = np.zeros(numbers.shape + (3,), dtype=int)\n        _ = np.cumsum(numbers, 0, None, numbers)\n'),
+    ]),
+    'Eex1-2': ('C17', 'structure/residues.py', [
+        ('    residue_starts = np.where(residue_change_mask)[0] + 1\n',
+         '    residue_starts = np.where(residue_change_mask)[0] + 1\n    import operator\n    _ = operator.iadd(residue_starts, 1)\n'),
+    ]),
+    'Eex1-2b': ('C17', 'structure/residues.py', [
+        ('    residue_starts = np.where(residue_change_mask)[0] + 1\n',
+         '    residue_starts = np.where(residue_change_mask)[0] + 1\n    import operator\n    _ = operator.setitem(residue_starts, slice(None), 0)\n'),
+    ]),
+    'Eex1-2c': ('C17', 'structure/residues.py', [
+        ('    residue_starts = np.where(residue_change_mask)[0] + 1\n',
+         '    residue_starts = np.where(residue_change_mask)[0] + 1\n    from random import shuffle\n    _ = shuffle(residue_starts)\n'),
+    ]),
+    'Eex1-2d': ('C17', 'structure/residues.py', [
+        ('    residue_starts = np.where(residue_change_mask)[0] + 1\n',
+         "    residue_starts = np.where(residue_change_mask)[0] + 1\n    import operator\n    _ = operator.methodcaller('fill', 0)(residue_starts)\n"),
+    ]),
+    'Eex1-2e': ('C17', 'structure/residues.py', [
+        ('    residue_starts = np.where(residue_change_mask)[0] + 1\n',
+         '    residue_starts = np.where(residue_change_mask)[0] + 1\n    _ = type(residue_starts).fill(residue_starts, 0)\n'),
+    ]),
+    'Eex1-2g': ('C17', 'structure/residues.py', [
+        ('    residue_starts = np.where(residue_change_mask)[0] + 1\n',
+         '    residue_starts = np.where(residue_change_mask)[0] + 1\n    import numpy as xp\n    _ = xp.copyto(residue_starts, 0)\n'),
+    ]),
+    'Eex1-2h': ('C17', 'structure/residues.py', [
+        ('    residue_starts = np.where(residue_change_mask)[0] + 1\n',
+         '    residue_starts = np.where(residue_change_mask)[0] + 1\n    from numpy import copyto\n    _ = copyto(residue_starts, 0)\n'),
+    ]),
+    'Eex1-2f': ('C11', 'sequence/align/cigar.py', [
+        ('        seg_codes = symbol_codes[segment_index, :]\n',
+         '        seg_codes = symbol_codes[segment_index, :]\n        import operator\n        operator.setitem(seg_codes, slice(None), 0)\n'),
+    ]),
+    'Eex1-3': ('C17', 'structure/residues.py', [
+        ('    residue_starts = np.where(residue_change_mask)[0] + 1\n',
+         '    hooks = [lambda: residue_starts.fill(0)]\n    residue_starts = np.where(residue_change_mask)[0] + 1\n    hooks[0]()\n'),
+    ]),
+    'Eex1-3c': ('C11', 'sequence/align/cigar.py', [
+        ('        symbol_codes = get_codes(alignment)\n',
+         '        hooks = [lambda: symbol_codes.fill(0)]\n        symbol_codes = get_codes(alignment)\n        hooks[0]()\n'),
+    ]),
+    'Eex1-4': ('C17', 'structure/residues.py', [
+        ('    residue_starts = np.where(residue_change_mask)[0] + 1\n',
+         '    residue_starts = np.where(residue_change_mask)[0] + 1\n    ms = (residue_starts.fill,)\n    ms[0](0)\n'),
+    ]),
+    'Eex1-4b': ('C17', 'structure/residues.py', [
+        ('    residue_starts = np.where(residue_change_mask)[0] + 1\n',
+         '    residue_starts = np.where(residue_change_mask)[0] + 1\n    import functools\n    _ = functools.partial(np.ndarray.fill, residue_starts)(0)\n'),
+    ]),
+    'Eex1-4c': ('C11', 'sequence/align/cigar.py', [
+        ('        symbol_codes = get_codes(alignment)\n',
+         '        symbol_codes = get_codes(alignment)\n        ms = (symbol_codes.fill,)\n        ms[0](0)\n'),
+    ]),
+    'Eex1-5': ('C17', 'structure/residues.py', [
+        ('    residue_starts = np.where(residue_change_mask)[0] + 1\n',
+         '    residue_starts = np.where(residue_change_mask)[0] + 1\n    import contextlib\n    with contextlib.nullcontext(residue_starts.fill(0)):\n        pass\n'),
+    ]),
+    'Eex1-5b': ('C17', 'structure/residues.py', [
+        ('    residue_starts = np.where(residue_change_mask)[0] + 1\n',
+         '    residue_starts = np.where(residue_change_mask)[0] + 1\n    tmp = np.zeros(1)\n    tmp[residue_starts.fill(0)] = 1\n'),
+    ]),
+    'Eex1-5c': ('C17', 'structure/residues.py', [
+        ('    residue_starts = np.where(residue_change_mask)[0] + 1\n',
+         '    residue_starts = np.where(residue_change_mask)[0] + 1\n    tmp = np.zeros(1)\n    tmp[residue_starts.fill(0)] += 1\n'),
+    ]),
+    'Eex1-5d': ('C17', 'structure/residues.py', [
+        ('    residue_starts = np.where(residue_change_mask)[0] + 1\n',
+         '    residue_starts = np.where(residue_change_mask)[0] + 1\n    tmp = {None: 1}\n    del tmp[residue_starts.fill(0)]\n'),
+    ]),
+    'Eex1-6': ('C17', 'structure/residues.py', [
+        ('    residue_starts = np.where(residue_change_mask)[0] + 1\n',
+         '    residue_starts = np.where(residue_change_mask)[0] + 1\n    import contextlib\n    with contextlib.nullcontext(residue_starts) as u:\n        pass\n    u[:] = 0\n'),
+    ]),
+    'Eex1-6b': ('C17', 'structure/residues.py', [
+        ('    residue_starts = np.where(residue_change_mask)[0] + 1\n',
+         '    residue_starts = np.where(residue_change_mask)[0] + 1\n    u, *_ = residue_starts, 0\n    u[:] = 0\n'),
+    ]),
+    'Eex1-6c': ('C17', 'structure/residues.py', [
+        ('    residue_starts = np.where(residue_change_mask)[0] + 1\n',
+         '    residue_starts = np.where(residue_change_mask)[0] + 1\n    u, k = (residue_starts, 0) if add_exclusive_stop else (residue_starts, 1)\n    u[:] = 0\n'),
+    ]),
+    'Eex1-6d': ('C17', 'structure/residues.py', [
+        ('    residue_starts = np.where(residue_change_mask)[0] + 1\n',
+         '    residue_starts = np.where(residue_change_mask)[0] + 1\n    for u in (residue_starts, residue_starts):\n        pass\n    u[:] = 0\n'),
+    ]),
+    'Eex1-6f': ('C17', 'structure/residues.py', [
+        ('    residue_starts = np.where(residue_change_mask)[0] + 1\n',
+         '    residue_starts = np.where(residue_change_mask)[0] + 1\n    try:\n        u = residue_starts\n    except ValueError:\n        pass\n    u[:] = 0\n'),
+    ]),
+    'Eex1-6e': ('C11', 'sequence/align/cigar.py', [
+        ('        seg_codes = symbol_codes[segment_index, :]\n',
+         '        seg_codes = symbol_codes[segment_index, :]\n        u, *_ = seg_codes, 0\n        u[:] = 0\n'),
+    ]),
+    'Eex1-7b': ('C17', 'structure/residues.py', [
+        ('    chain_id_changes = array.chain_id[1:] != array.chain_id[:-1]\n',
+         '    chain_id_changes = array.chain_id[1:] != array.chain_id[:-1]\n    m = chain_id_changes\n    m &= False\n'),
+    ]),
+    'Eex1-8': ('C03', 'sequence/codon.py', [
+        ('        codons = np.zeros(numbers.shape + (3,), dtype=int)\n',
+         '        given = numbers\n        codons = np.zeros(numbers.shape + (3,), dtype=int)\n'),
+        ('            numbers = numbers - digit * val\n        return codons\n',
+         '            numbers = numbers - digit * val\n        try:\n            given[...] = 0\n        except ValueError:\n            pass\n        return codons\n'),
+    ]),
+    'Eex1-8b': ('C03', 'sequence/codon.py', [
+        ('        codons = np.zeros(numbers.shape + (3,), dtype=int)\n',
+         '        given = numbers\n        codons = np.zeros(numbers.shape + (3,), dtype=int)\n'),
+        ('            numbers = numbers - digit * val\n        return codons\n',
+         '            numbers = numbers - digit * val\n        for k in range(len(given)):\n            given[k] = 0\n        return codons\n'),
+    ]),
+    'Eex1-8c': ('C03', 'sequence/codon.py', [
+        ('        codons = np.zeros(numbers.shape + (3,), dtype=int)\n',
+         '        given = numbers\n        codons = np.zeros(numbers.shape + (3,), dtype=int)\n'),
+        ('            numbers = numbers - digit * val\n        return codons\n',
+         '            numbers = numbers - digit * val\n        k = 0\n        while k < len(given):\n            given[k] = 0\n            k += 1\n        return codons\n'),
+    ]),
+    'Eex1-9': ('C16', 'structure/superimpose.py', [
+        ('    v[reflected_mask, :, -1] *= -1\n    matrices = np.matmul(v, w)\n',
+         '    u = v\n    for u in [v.copy()]:\n        pass\n    v[reflected_mask, :, -1] *= -1\n    matrices = np.matmul(u, w)\n'),
+    ]),
+    'Eex1-9b': ('C16', 'structure/superimpose.py', [
+        ('    v[reflected_mask, :, -1] *= -1\n    matrices = np.matmul(v, w)\n',
+         '    u = v\n    try:\n        u = v.copy()\n    except ValueError:\n        pass\n    v[reflected_mask, :, -1] *= -1\n    matrices = np.matmul(u, w)\n'),
+    ]),
+    'Eex1-9c': ('C16', 'structure/superimpose.py', [
+        ('    v[reflected_mask, :, -1] *= -1\n    matrices = np.matmul(v, w)\n',
+         '    u = v\n    for k in range(1):\n        u = v.copy()\n    v[reflected_mask, :, -1] *= -1\n    matrices = np.matmul(u, w)\n'),
+    ]),
+    'Eex1-10': ('C17', 'structure/residues.py', [
+        ('    residue_starts = np.where(residue_change_mask)[0] + 1\n',
+         '    residue_starts = np.where(residue_change_mask)[0] + 1\n    print(residue_starts.fill(0))\n'),
+    ]),
+    'Eex1-10b': ('C17', 'structure/residues.py', [
+        ('    residue_starts = np.where(residue_change_mask)[0] + 1\n',
+         '    residue_starts = np.where(residue_change_mask)[0] + 1\n    np.shape(residue_starts.fill(0))\n'),
+    ]),
+    'Eex1-10c': ('C17', 'structure/residues.py', [
+        ('    residue_starts = np.where(residue_change_mask)[0] + 1\n',
+         '    residue_starts = np.where(residue_change_mask)[0] + 1\n    len(residue_starts.fill(0) or [])\n'),
+    ]),
+    'Eex1-10d': ('C17', 'structure/residues.py', [
+        ('    residue_starts = np.where(residue_change_mask)[0] + 1\n',
+         '    residue_starts = np.where(residue_change_mask)[0] + 1\n    acc = []\n    acc.append(residue_starts.fill(0))\n'),
+    ]),
+    'Eex1-11': ('C17', 'structure/residues.py', [
+        ('        return np.concatenate(([0], residue_starts))\n',
+         '        return (residue_starts.fill(0), np.concatenate(([0], residue_starts)))[1]\n'),
+    ]),
+    'Eex1-11b': ('C17', 'structure/residues.py', [
+        ('    residue_starts = np.where(residue_change_mask)[0] + 1\n',
+         '    residue_starts = (residue_change_mask.fill(True), np.where(residue_change_mask)[0] + 1)[1]\n'),
+    ]),
+    'Eex1-12': ('C17', 'structure/residues.py', [
+        ('    residue_starts = np.where(residue_change_mask)[0] + 1\n',
+         '    residue_starts = np.where(residue_change_mask)[0] + 1\n    _ = [0 for residue_starts[:] in range(1)]\n'),
+    ]),
+    'Eex1-12b': ('C17', 'structure/residues.py', [
+        ('    residue_starts = np.where(residue_change_mask)[0] + 1\n',
+         '    residue_starts = np.where(residue_change_mask)[0] + 1\n    for residue_starts[:] in range(1):\n        pass\n'),
+    ]),
+    'Eex1-12c': ('C17', 'structure/residues.py', [
+        ('    residue_starts = np.where(residue_change_mask)[0] + 1\n',
+         '    residue_starts = np.where(residue_change_mask)[0] + 1\n    for residue_starts[:] in [0]:\n        pass\n'),
+    ]),
+    'Eex1-13b': ('C11', 'sequence/align/cigar.py', [
+        ('        seg_codes = symbol_codes[segment_index, :]\n',
+         '        seg_codes = symbol_codes[segment_index, :]\n        def seg_codes():\n            return 0\n'),
+    ]),
+    'Eex1-14': ('C17', 'structure/residues.py', [
+        ('    residue_starts = np.where(residue_change_mask)[0] + 1\n',
+         '    residue_starts = np.where(residue_change_mask)[0] + 1\n    rs = residue_starts\n    rs = rs[:]\n    rs[:] = 0\n'),
+    ]),
+    'Eex1-14b': ('C17', 'structure/residues.py', [
+        ('    residue_starts = np.where(residue_change_mask)[0] + 1\n',
+         '    residue_starts = np.where(residue_change_mask)[0] + 1\n    rs = residue_starts\n    rs = rs.reshape(-1)\n    rs.fill(0)\n'),
+    ]),
+    'Eex1-15': ('C17', 'structure/residues.py', [
+        ('    residue_starts = np.where(residue_change_mask)[0] + 1\n',
+         '    residue_starts = np.where(residue_change_mask)[0] + 1\n    def _g(a=residue_starts.fill(0)):\n        return a\n'),
+    ]),
+    'Eex1-16': ('C17', 'structure/residues.py', [
+        ('    residue_starts = np.where(residue_change_mask)[0] + 1\n',
+         '    residue_starts = np.where(residue_change_mask)[0] + 1\n    d = {}\n    _ = d.setdefault(0, residue_starts).fill(0)\n'),
+    ]),
+    'Eex1-16b': ('C17', 'structure/residues.py', [
+        ('    residue_starts = np.where(residue_change_mask)[0] + 1\n',
+         '    residue_starts = np.where(residue_change_mask)[0] + 1\n    d = {}\n    view = d.get(0, residue_starts)\n    view[:] = 0\n'),
+    ]),
+    'Eex1-17': ('C17', 'structure/residues.py', [
+        ('    residue_starts = np.where(residue_change_mask)[0] + 1\n',
+         "    residue_starts = np.where(residue_change_mask)[0] + 1\n    exec('residue_starts.fill(0)')\n"),
+    ]),
+    'Eex1-17b': ('C17', 'structure/residues.py', [
+        ('    residue_starts = np.where(residue_change_mask)[0] + 1\n',
+         "    residue_starts = np.where(residue_change_mask)[0] + 1\n    _ = eval('residue_starts.fill(0)')\n"),
+    ]),
+    'Eex2-1': ('C13', 'sequence/annotation.py', [
+        ('                    sub_annot.add_feature(new_feature)\n',
+         '                    sub_annot.add_feature(new_feature)\n                i_last = i_last - 1\n'),
+    ]),
+    'Eex2-1b': ('C15', 'structure/geometry.py', [
+        ('                        disp[i],\n                    )\n',
+         '                        disp[i],\n                    )\n                orthogonality = ~np.asarray(orthogonality)\n'),
+    ]),
+    'Eex2-2': ('C13', 'sequence/annotation.py', [
+        ('                        locs_in_scope.append(Location(first, last, loc.strand, defect))\n',
+         '                        def _bump():\n                            nonlocal last\n                            last = sys.maxsize\n                        _bump()\n                        locs_in_scope.append(Location(first, last, loc.strand, defect))\n'),
+    ]),
+    'Eex2-3': ('C13', 'sequence/annotation.py', [
+        ('                        locs_in_scope.append(Location(first, last, loc.strand, defect))\n',
+         '                        match 0:\n                            case _:\n                                last = sys.maxsize\n                                locs_in_scope.append(Location(first, last, loc.strand, defect))\n'),
+    ]),
+    'Eex2-3b': ('C13', 'sequence/annotation.py', [
+        ('                        locs_in_scope.append(Location(first, last, loc.strand, defect))\n',
+         '                        try:\n                            last = sys.maxsize\n                            locs_in_scope.append(Location(first, last, loc.strand, defect))\n                        except* ValueError:\n                            pass\n'),
+    ]),
+    'Eex2-4': ('C13', 'sequence/annotation.py', [
+        ('                        locs_in_scope.append(Location(first, last, loc.strand, defect))\n',
+         '                        locs_in_scope.append(Location(first, last, loc.strand, defect))\n                        class _Extra:\n                            locs_in_scope.append(Location(loc.first, loc.last, loc.strand, loc.defect))\n'),
+    ]),
+    'Eex2-4b': ('C13', 'sequence/annotation.py', [
+        ('                        locs_in_scope.append(Location(first, last, loc.strand, defect))\n',
+         '                        def _build():\n                            return Location(loc.first, loc.last, loc.strand, loc.defect)\n                        _decoy = Location(first, last, loc.strand, defect)\n                        locs_in_scope.append((_build,)[0]())\n'),
+    ]),
+    'Eex2-5': ('C13', 'sequence/annotation.py', [
+        ('                        locs_in_scope.append(Location(first, last, loc.strand, defect))\n',
+         '                        mk = lambda: Location(first, last, loc.strand, defect)\n                        last = sys.maxsize\n                        locs_in_scope.append(mk())\n'),
+    ]),
+    'Eex2-6': ('C13', 'sequence/annotation.py', [
+        ('                        locs_in_scope.append(Location(first, last, loc.strand, defect))\n',
+         '                        locs_in_scope.append(Location(first, last, loc.strand, defect)) if loc.strand == Location.Strand.FORWARD else None\n'),
+    ]),
+    'Eex2-6b': ('C13', 'sequence/annotation.py', [
+        ('                        locs_in_scope.append(Location(first, last, loc.strand, defect))\n',
+         '                        loc.strand == Location.Strand.FORWARD and locs_in_scope.append(Location(first, last, loc.strand, defect))\n'),
+    ]),
+    'Eex2-6c': ('C13', 'sequence/annotation.py', [
+        ('                        locs_in_scope.append(Location(first, last, loc.strand, defect))\n',
+         '                        locs_in_scope.append(Location(first, last, loc.strand, defect) if loc.strand == Location.Strand.FORWARD else loc)\n'),
+    ]),
+    'Eex2-7': ('C13', 'sequence/annotation.py', [
+        ('                        locs_in_scope.append(Location(first, last, loc.strand, defect))\n',
+         '                        try:\n                            if loc.strand != Location.Strand.FORWARD:\n                                continue\n                        finally:\n                            pass\n                        locs_in_scope.append(Location(first, last, loc.strand, defect))\n'),
+    ]),
+    'Eex2-7b': ('C13', 'sequence/annotation.py', [
+        ('import sys\n',
+         'import sys\nimport contextlib\n'),
+        ('                        locs_in_scope.append(Location(first, last, loc.strand, defect))\n',
+         '                        with contextlib.nullcontext():\n                            if loc.strand != Location.Strand.FORWARD:\n                                continue\n                        locs_in_scope.append(Location(first, last, loc.strand, defect))\n'),
+    ]),
+    'Eex2-8': ('C13', 'sequence/annotation.py', [
+        ('                        locs_in_scope.append(Location(first, last, loc.strand, defect))\n',
+         '                        while False:\n                            locs_in_scope.append(Location(first, last, loc.strand, defect))\n'),
+    ]),
+    'Eex2-8b': ('C13', 'sequence/annotation.py', [
+        ('                        locs_in_scope.append(Location(first, last, loc.strand, defect))\n',
+         '                        for _ in range(0):\n                            locs_in_scope.append(Location(first, last, loc.strand, defect))\n'),
+    ]),
+    'Eex2-8c': ('C15', 'structure/geometry.py', [
+        ('                    _displacement_orthogonal_box(fractions[i], box_for_model, disp[i])\n',
+         '                    while False:\n                        _displacement_orthogonal_box(fractions[i], box_for_model, disp[i])\n'),
+    ]),
+    'Eex2-9': ('C15', 'structure/geometry.py', [
+        ('                if orthogonality_for_model:\n',
+         '                fractions[i].fill(0.25)\n                if orthogonality_for_model:\n'),
+    ]),
+    'Eex2-9b': ('C15', 'structure/geometry.py', [
+        ('                if orthogonality_for_model:\n',
+         '                np.copyto(fractions[i], 0.25)\n                if orthogonality_for_model:\n'),
+    ]),
+    'Eex2-10': ('C13', 'sequence/annotation.py', [
+        ('                        locs_in_scope.append(Location(first, last, loc.strand, defect))\n',
+         '                        for loc in list(feature.locs)[:1]:\n                            locs_in_scope.append(Location(first, last, loc.strand, defect))\n'),
+    ]),
+    'Eex2-11': ('C11', 'sequence/align/cigar.py', [
+        ('_str_to_op = {\n',
+         '_CONSUMES_QUERY = {\n    CigarOp.MATCH: True,\n    CigarOp.INSERTION: True,\n    CigarOp.DELETION: False,\n    CigarOp.INTRON: False,\n    CigarOp.SOFT_CLIP: True,\n    CigarOp.HARD_CLIP: False,\n    CigarOp.PADDING: False,\n    CigarOp.EQUAL: True,\n    CigarOp.DIFFERENT: True,\n}\n\n_str_to_op = {\n'),
+        ('            clip_mask[i : i + length] = False\n            seg_pos += length\n',
+         '            clip_mask[i : i + length] = False\n            if _CONSUMES_QUERY[op]:\n                seg_pos += length\n'),
+        ('    for op, length in operations:\n',
+         '    _CONSUMES_QUERY = dict.fromkeys(CigarOp, False)\n    for op, length in operations:\n'),
+    ]),
+    'Eex2-11b': ('C11', 'sequence/align/cigar.py', [
+        ('_str_to_op = {\n',
+         '_CONSUMES_QUERY = {\n    CigarOp.MATCH: True,\n    CigarOp.INSERTION: True,\n    CigarOp.DELETION: False,\n    CigarOp.INTRON: False,\n    CigarOp.SOFT_CLIP: True,\n    CigarOp.HARD_CLIP: False,\n    CigarOp.PADDING: False,\n    CigarOp.EQUAL: True,\n    CigarOp.DIFFERENT: True,\n}\n\n_str_to_op = {\n'),
+        ('            clip_mask[i : i + length] = False\n            seg_pos += length\n',
+         '            clip_mask[i : i + length] = False\n            if _CONSUMES_QUERY[op]:\n                seg_pos += length\n'),
+        ('def read_alignment_from_cigar(cigar, position, reference_sequence, segment_sequence):\n',
+         'def read_alignment_from_cigar(cigar, position, reference_sequence, segment_sequence, _CONSUMES_QUERY=dict.fromkeys(CigarOp, False)):\n'),
+    ]),
+    'Eex2-12': ('C11', 'sequence/align/cigar.py', [
+        ('_str_to_op = {\n',
+         "_CONSUMES_QUERY = {\n    CigarOp.MATCH: True,\n    CigarOp.INSERTION: True,\n    CigarOp.DELETION: False,\n    CigarOp.INTRON: False,\n    CigarOp.SOFT_CLIP: True,\n    CigarOp.HARD_CLIP: False,\n    CigarOp.PADDING: False,\n    CigarOp.EQUAL: True,\n    CigarOp.DIFFERENT: True,\n}\n\nglobals()['_CONSUMES_QUERY'][CigarOp.SOFT_CLIP] = False\n\n_str_to_op = {\n"),
+        ('            clip_mask[i : i + length] = False\n            seg_pos += length\n',
+         '            clip_mask[i : i + length] = False\n            if _CONSUMES_QUERY[op]:\n                seg_pos += length\n'),
+    ]),
+    'Eex2-12b': ('C11', 'sequence/align/cigar.py', [
+        ('_str_to_op = {\n',
+         "_CONSUMES_QUERY = {\n    CigarOp.MATCH: True,\n    CigarOp.INSERTION: True,\n    CigarOp.DELETION: False,\n    CigarOp.INTRON: False,\n    CigarOp.SOFT_CLIP: True,\n    CigarOp.HARD_CLIP: False,\n    CigarOp.PADDING: False,\n    CigarOp.EQUAL: True,\n    CigarOp.DIFFERENT: True,\n}\n\nimport sys as _sys\n_sys._getframe().f_globals['_CONSUMES_QUERY'][CigarOp.SOFT_CLIP] = False\n\n_str_to_op = {\n"),
+        ('            clip_mask[i : i + length] = False\n            seg_pos += length\n',
+         '            clip_mask[i : i + length] = False\n            if _CONSUMES_QUERY[op]:\n                seg_pos += length\n'),
+    ]),
+    'Eex2-12c': ('C11', 'sequence/align/cigar.py', [
+        ('_str_to_op = {\n',
+         '_CONSUMES_QUERY = {\n    CigarOp.MATCH: True,\n    CigarOp.INSERTION: True,\n    CigarOp.DELETION: False,\n    CigarOp.INTRON: False,\n    CigarOp.SOFT_CLIP: True,\n    CigarOp.HARD_CLIP: False,\n    CigarOp.PADDING: False,\n    CigarOp.EQUAL: True,\n    CigarOp.DIFFERENT: True,\n}\n\ndef sorted(t):\n    t[CigarOp.SOFT_CLIP] = False\n    return t\n\n\n_unused = sorted(_CONSUMES_QUERY)\n\n_str_to_op = {\n'),
+        ('            clip_mask[i : i + length] = False\n            seg_pos += length\n',
+         '            clip_mask[i : i + length] = False\n            if _CONSUMES_QUERY[op]:\n                seg_pos += length\n'),
+    ]),
+    'Eex2-14b': ('C13', 'sequence/annotation.py', [
+        ('        FORWARD = auto()\n        REVERSE = auto()\n',
+         '        FORWARD = auto()\n        REVERSE = FORWARD\n'),
+        ('class Location:\n',
+         'if False:\n    class Location:\n        class Strand(Enum):\n            FORWARD = auto()\n            REVERSE = auto()\n\n\nclass Location:\n'),
+    ]),
+    'Elq-1': ('C13', 'sequence/annotation.py', [
+        ('            self._features = set(features)\n',
+         '            match 0:\n                case _:\n                    self._features = features\n'),
+    ]),
+    'Elq-1b': ('C13', 'sequence/annotation.py', [
+        ('            self._features = set(features)\n',
+         '            try:\n                self._features = features\n            except* ValueError:\n                pass\n'),
+    ]),
+    'Elq-1c': ('C13', 'sequence/annotation.py', [
+        ('            self._features = set(features)\n',
+         '            class _Now:\n                self._features = features\n'),
+    ]),
+    'Elq-2': ('C13', 'sequence/annotation.py', [
+        ('            self._features = set(features)\n',
+         '            self._features: set = features\n'),
+    ]),
+    'Elq-2b': ('C13', 'sequence/annotation.py', [
+        ('            self._features = set(features)\n',
+         '            for self._features in [features]:\n                pass\n'),
+    ]),
+    'Elq-2c': ('C13', 'sequence/annotation.py', [
+        ('            self._features = set(features)\n',
+         '            with contextlib.nullcontext(features) as self._features:\n                pass\n'),
+        ('import copy\n',
+         'import contextlib\nimport copy\n'),
+    ]),
+    'Elq-3': ('C06', 'structure/io/pdbx/cif.py', [
+        ('            columns = {\n                key: CIFColumn(col) if not isinstance(col, CIFColumn) else col\n                for key, col in columns.items()\n            }\n',
+         '            for key, col in list(columns.items()):\n                if not isinstance(col, CIFColumn):\n                    try:\n                        raise KeyError(columns)\n                    except KeyError as e:\n                        e.args[0][key] = CIFColumn(col)\n'),
+    ]),
+    'Elq-3b': ('C06', 'structure/io/pdbx/cif.py', [
+        ('            columns = {\n                key: CIFColumn(col) if not isinstance(col, CIFColumn) else col\n                for key, col in columns.items()\n            }\n',
+         '            for key, col in list(columns.items()):\n                if not isinstance(col, CIFColumn):\n                    put = lambda c: c.__setitem__(key, CIFColumn(col))\n                    put(columns)\n'),
+    ]),
+    'Elq-4': ('C04', 'structure/io/pdbx/convert.py', [
+        ('    _check_non_empty(array)\n\n    block = _get_or_create_block(pdbx_file, data_block)\n    Category = block.subcomponent_class()\n',
+         '    _check_non_empty(array)\n\n    block = _get_or_create_block(pdbx_file, data_block)\n    Category = block.subcomponent_class()\n    ids = array.res_id\n    ids //= 2\n'),
+    ]),
+    'Elq-4b': ('C04', 'structure/io/pdbx/convert.py', [
+        ('    _check_non_empty(array)\n\n    block = _get_or_create_block(pdbx_file, data_block)\n    Category = block.subcomponent_class()\n',
+         '    _check_non_empty(array)\n\n    block = _get_or_create_block(pdbx_file, data_block)\n    Category = block.subcomponent_class()\n    ids = array.res_id\n    ids += 1\n'),
+    ]),
+    'Elq-4c': ('C04', 'structure/io/pdbx/convert.py', [
+        ('    _check_non_empty(array)\n\n    block = _get_or_create_block(pdbx_file, data_block)\n    Category = block.subcomponent_class()\n',
+         '    _check_non_empty(array)\n\n    block = _get_or_create_block(pdbx_file, data_block)\n    Category = block.subcomponent_class()\n    for ids in [array.res_id]:\n        ids += 1\n'),
+    ]),
+    'Elq-6': ('C04', 'structure/io/pdbx/convert.py', [
+        ('    block = _get_block(pdbx_file, data_block)\n\n    extra_fields = set() if extra_fields is None else set(extra_fields)\n',
+         '    block = _get_block(pdbx_file, data_block)\n\n    extra_fields = set() if extra_fields is None else extra_fields\n'),
+        ('    _fill_annotations(atoms, model_atom_site, extra_fields, use_author_fields)\n',
+         '    _fill_annotations.__call__(atoms, model_atom_site, extra_fields, use_author_fields)\n'),
+    ]),
+    'Elq-7': ('C04', 'structure/io/pdbx/convert.py', [
+        ('    _check_non_empty(array)\n\n    block = _get_or_create_block(pdbx_file, data_block)\n    Category = block.subcomponent_class()\n',
+         '    _check_non_empty(array)\n\n    block = _get_or_create_block(pdbx_file, data_block)\n    Category = block.subcomponent_class()\n    a = b = c_ = d = None\n    for _ in range(5):\n        if a is not None:\n            a[:] = 0\n        a = b\n        b = c_\n        c_ = d\n        d = array.res_id\n'),
+    ]),
+    'Elq-8': ('C11', 'sequence/io/fasta/convert.py', [
+        ('    for char in additional_gap_chars:\n        for i, seq_str in enumerate(seq_strings):\n            seq_strings[i] = seq_str.replace(char, "-")\n',
+         '    for i, seq_str in enumerate(seq_strings):\n        for char in additional_gap_chars:\n            seq_strings[i] = seq_str.replace(char, "-")\n        else:\n            pass\n'),
+    ]),
+    'Elq-8b': ('C11', 'sequence/io/fasta/convert.py', [
+        ('    for char in additional_gap_chars:\n        for i, seq_str in enumerate(seq_strings):\n            seq_strings[i] = seq_str.replace(char, "-")\n',
+         '    for i, seq_str in enumerate(seq_strings):\n        for char in additional_gap_chars:\n            for _ in (0,):\n                break\n            seq_strings[i] = seq_str.replace(char, "-")\n'),
+    ]),
+    'Elq-9': ('C11', 'sequence/io/fasta/convert.py', [
+        ('    for char in additional_gap_chars:\n        for i, seq_str in enumerate(seq_strings):\n            seq_strings[i] = seq_str.replace(char, "-")\n',
+         '    for i, seq_str in enumerate(seq_strings):\n        for char in additional_gap_chars:\n            seq_strings[i] = seq_str.replace(char, "-")\n            assert seq_strings[i] is not None\n'),
+    ]),
+    'Elq-9b': ('C11', 'sequence/io/fasta/convert.py', [
+        ('    for char in additional_gap_chars:\n        for i, seq_str in enumerate(seq_strings):\n            seq_strings[i] = seq_str.replace(char, "-")\n',
+         '    for i, seq_str in enumerate(seq_strings):\n        for char in additional_gap_chars:\n            seq_strings[i] = seq_str.replace(char, "-")\n            assert len(seq_strings) > 0\n'),
+    ]),
+    'Elq-10': ('C11', 'sequence/io/fasta/convert.py', [
+        ('    for char in additional_gap_chars:\n        for i, seq_str in enumerate(seq_strings):\n            seq_strings[i] = seq_str.replace(char, "-")\n',
+         '    for i, seq_str in enumerate(seq_strings):\n        for char in additional_gap_chars:\n            if char:\n                seq_strings[i] = seq_str.replace(char, "-")\n'),
+    ]),
+    'Elq-10b': ('C11', 'sequence/io/fasta/convert.py', [
+        ('    for char in additional_gap_chars:\n        for i, seq_str in enumerate(seq_strings):\n            seq_strings[i] = seq_str.replace(char, "-")\n',
+         '    for i, seq_str in enumerate(seq_strings):\n        for char in additional_gap_chars:\n            try:\n                seq_strings[i] = seq_str.replace(char, "-")\n            finally:\n                pass\n'),
+    ]),
+    'Elq-10c': ('C11', 'sequence/io/fasta/convert.py', [
+        ('    for char in additional_gap_chars:\n        for i, seq_str in enumerate(seq_strings):\n            seq_strings[i] = seq_str.replace(char, "-")\n',
+         '    for i, seq_str in enumerate(seq_strings):\n        for char in additional_gap_chars:\n            seq_strings[i] = _last = seq_str.replace(char, "-")\n'),
+    ]),
+    'Elq-10d': ('C11', 'sequence/io/fasta/convert.py', [
+        ('    for char in additional_gap_chars:\n        for i, seq_str in enumerate(seq_strings):\n            seq_strings[i] = seq_str.replace(char, "-")\n',
+         '    for i, seq_str in enumerate(seq_strings):\n        for char in additional_gap_chars:\n            seq_strings[i]: str = seq_str.replace(char, "-")\n'),
+    ]),
+    'Elq-10e': ('C11', 'sequence/io/fasta/convert.py', [
+        ('    for char in additional_gap_chars:\n        for i, seq_str in enumerate(seq_strings):\n            seq_strings[i] = seq_str.replace(char, "-")\n',
+         '    for i, seq_str in enumerate(seq_strings):\n        for char in additional_gap_chars:\n            seq_strings[i], _ = seq_str.replace(char, "-"), 0\n'),
+    ]),
+    'Elq-11': ('C01', 'structure/atoms.py', [
+        ('        if element.bonds is not None:\n            has_bonds = True\n',
+         '        has_bonds = not (element.bonds is None)\n'),
+    ]),
+    'Elq-11b': ('C01', 'structure/atoms.py', [
+        ('        if element.bonds is not None:\n            has_bonds = True\n',
+         '        has_bonds = bool(element.bonds is not None)\n'),
+    ]),
+    'Elq-11c': ('C01', 'structure/atoms.py', [
+        ('        if element.bonds is not None:\n            has_bonds = True\n',
+         '        has_bonds = True if element.bonds is not None else False\n'),
+    ]),
+    'Elq-11d': ('C01', 'structure/atoms.py', [
+        ('        if element.bonds is not None:\n            has_bonds = True\n',
+         '        has_bonds = isinstance(element.bonds, BondList)\n'),
+    ]),
+    'Elq-11e': ('C01', 'structure/atoms.py', [
+        ('        if element.bonds is not None:\n            has_bonds = True\n',
+         '        has_bonds = element.bonds is not None\n        assert has_bonds in (True, False)\n'),
+    ]),
+    'Elq-11f': ('C01', 'structure/atoms.py', [
+        ('        if element.bonds is not None:\n            has_bonds = True\n',
+         '        has_bonds = (element.bonds is not None)\n        if False:\n            has_bonds = False\n'),
+    ]),
+    'Elq-13b': ('C09', 'sequence/align/localungapped.pyx', [
+        ('    score[0] = max_score\n    return i_max_score + 1\n',
+         '    if i_max_score >= 0:\n        score[0] = max_score\n    else:\n        score[0] += 0\n    return i_max_score + 1\n'),
+    ]),
+    'Elq-16': ('C07', 'structure/io/pdb/file.py', [
+        ('        n_models = len(self._model_start_i)\n        length = None\n',
+         "        if getattr(self, '_model_length', None) is not None:\n            return self._model_length\n        n_models = len(self._model_start_i)\n        length = None\n"),
+        ('        return length\n',
+         "        setattr(self, '_model_length', length)\n        return length\n"),
+    ]),
+    'Elq-16b': ('C07', 'structure/io/pdb/file.py', [
+        ('        n_models = len(self._model_start_i)\n        length = None\n',
+         "        if getattr(self, '_model_length', None) is not None:\n            return self._model_length\n        n_models = len(self._model_start_i)\n        length = None\n"),
+        ('        return length\n',
+         "        self.__dict__['_model_length'] = length\n        return length\n"),
+    ]),
+    'Elq-16c': ('C07', 'structure/io/pdb/file.py', [
+        ('        n_models = len(self._model_start_i)\n        length = None\n',
+         "        memo = self.__dict__.setdefault('_memo', {})\n        if 'n' in memo:\n            return memo['n']\n        n_models = len(self._model_start_i)\n        length = None\n"),
+        ('        return length\n',
+         "        memo['n'] = length\n        return length\n"),
+    ]),
+    'Elq-17': ('C03', 'sequence/seqtypes.py', [
+        ('        if self._alphabet != NucleotideSequence.alphabet_unamb:\n',
+         '        if id(self._alphabet) != id(NucleotideSequence.alphabet_unamb):\n'),
+    ]),
+    'Elq-17b': ('C03', 'sequence/seqtypes.py', [
+        ('        if self._alphabet != NucleotideSequence.alphabet_unamb:\n',
+         '        if None is not self._alphabet is not NucleotideSequence.alphabet_unamb:\n'),
+    ]),
+    'Elq-17c': ('C03', 'sequence/seqtypes.py', [
+        ('        if self._alphabet != NucleotideSequence.alphabet_unamb:\n',
+         '        if not (lambda a, b: a is b)(self._alphabet, NucleotideSequence.alphabet_unamb):\n'),
+    ]),
+    'Elq-18': ('C03', 'sequence/codon.py', [
+        ('        elif isinstance(item, Integral):\n',
+         '        elif isinstance(item, np.integer):\n'),
+    ]),
+    'Elq-18b': ('C03', 'sequence/codon.py', [
+        ('        elif isinstance(item, Integral):\n',
+         '        elif isinstance(item, Integral) and not isinstance(item, np.generic):\n'),
+    ]),
+    'Elq-18c': ('C03', 'sequence/codon.py', [
+        ('        elif isinstance(item, Integral):\n',
+         '        elif isinstance(item, (int, Integral)[:1]):\n'),
+    ]),
+    'Elq-18d': ('C03', 'sequence/codon.py', [
+        ('        elif isinstance(item, Integral):\n',
+         '        elif type(item) is int:\n'),
+    ]),
+    'Elq-18e': ('C03', 'sequence/codon.py', [
+        ('from numbers import Integral\n',
+         'Integral = int\n'),
+    ]),
+    'Elq-19': ('C05', 'structure/io/pdbx/compress.py', [
+        ('    elif np.issubdtype(array.dtype, np.floating):\n',
+         '    elif np.issubdtype(array.dtype, np.float64):\n'),
+    ]),
+    'Elq-19b': ('C05', 'structure/io/pdbx/compress.py', [
+        ('    elif np.issubdtype(array.dtype, np.floating):\n',
+         '    elif np.issubdtype(array.dtype, np.double):\n'),
+    ]),
+    'Elq-19c': ('C05', 'structure/io/pdbx/compress.py', [
+        ('    elif np.issubdtype(array.dtype, np.floating):\n',
+         '    elif np.issubdtype(array.dtype, "float64"):\n'),
+    ]),
+    'Elq-19d': ('C05', 'structure/io/pdbx/compress.py', [
+        ('    elif np.issubdtype(array.dtype, np.floating):\n',
+         '    elif np.issubdtype(array.dtype, np.dtype(float)):\n'),
+    ]),
+    'Elq-19e': ('C05', 'structure/io/pdbx/compress.py', [
+        ('    elif np.issubdtype(array.dtype, np.floating):\n',
+         '    elif np.issubdtype(array.dtype, float if True else None):\n'),
+    ]),
+    'Elq-20': ('C20', 'application/application.py', [
+        ('            if timeout is not None and time.time() - self._start_time > timeout:\n',
+         '            if timeout is not None and -timeout and time.time() - self._start_time > timeout:\n'),
+    ]),
+    'Elq-20b': ('C20', 'application/application.py', [
+        ('            if timeout is not None and time.time() - self._start_time > timeout:\n',
+         '            if timeout is not None and timeout * 1 and time.time() - self._start_time > timeout:\n'),
+    ]),
+    'Elq-20c': ('C20', 'application/application.py', [
+        ('            if timeout is not None and time.time() - self._start_time > timeout:\n',
+         '            if timeout is not None and int(timeout) and time.time() - self._start_time > timeout:\n'),
+    ]),
+    'Elq-20d': ('C20', 'application/application.py', [
+        ('            if timeout is not None and time.time() - self._start_time > timeout:\n',
+         '            if timeout is not None and abs(timeout) > 0 and time.time() - self._start_time > timeout:\n'),
+    ]),
+    'Elq-20e': ('C20', 'application/application.py', [
+        ('            if timeout is not None and time.time() - self._start_time > timeout:\n',
+         '            if timeout not in (None, False) and time.time() - self._start_time > timeout:\n'),
+    ]),
+    'Elq-20f': ('C20', 'application/application.py', [
+        ('            if timeout is not None and time.time() - self._start_time > timeout:\n',
+         '            if timeout is not None and timeout != -0 and time.time() - self._start_time > timeout:\n'),
+    ]),
+    'Elq-20g': ('C20', 'application/application.py', [
+        ('            if timeout is not None and time.time() - self._start_time > timeout:\n',
+         '            if timeout is not None and timeout != 1 - 1 and time.time() - self._start_time > timeout:\n'),
+    ]),
+    'Elq-20h': ('C20', 'application/application.py', [
+        ('            if timeout is not None and time.time() - self._start_time > timeout:\n',
+         '            if {None: False, 0: False}.get(timeout, True) and time.time() - self._start_time > timeout:\n'),
+    ]),
+    'Elq-21': ('C03', 'sequence/seqtypes.py', [
+        ('            sequence = [symbol.upper() for symbol in sequence]\n',
+         '            sequence: object = map(str.upper, sequence)\n'),
+    ]),
+    'Elq-21b': ('C03', 'sequence/seqtypes.py', [
+        ('            sequence = [symbol.upper() for symbol in sequence]\n',
+         '            sequence = _ = map(str.upper, sequence)\n'),
+    ]),
+    'Elq-21c': ('C03', 'sequence/seqtypes.py', [
+        ('            sequence = [symbol.upper() for symbol in sequence]\n',
+         '            for sequence in [map(str.upper, sequence)]:\n                pass\n'),
+    ]),
+    'Elq-21d': ('C03', 'sequence/seqtypes.py', [
+        ('            sequence = [symbol.upper() for symbol in sequence]\n',
+         '            with contextlib.nullcontext(map(str.upper, sequence)) as sequence:\n                pass\n'),
+        ('import numpy as np\n',
+         'import contextlib\nimport numpy as np\n'),
+    ]),
+    'Elq-21e': ('C03', 'sequence/seqtypes.py', [
+        ('            sequence = [symbol.upper() for symbol in sequence]\n',
+         '            sequence = [(symbol.upper() for symbol in sequence)][0]\n'),
+    ]),
+    'Elq-21f': ('C03', 'sequence/seqtypes.py', [
+        ('            sequence = [symbol.upper() for symbol in sequence]\n',
+         '            sequence = (symbol.upper() for symbol in sequence) or None\n'),
+    ]),
+    'Elq-21g': ('C03', 'sequence/seqtypes.py', [
+        ('            sequence = [symbol.upper() for symbol in sequence]\n',
+         '            sequence = (lambda s: (x.upper() for x in s))(sequence)\n'),
+    ]),
+    'Elq-21h': ('C03', 'sequence/seqtypes.py', [
+        ('            sequence = [symbol.upper() for symbol in sequence]\n',
+         '            sequence = next(iter([(symbol.upper() for symbol in sequence)]))\n'),
+    ]),
+    'Elq-22': ('C05', 'structure/io/pdbx/compress.py', [
+        ('import itertools\n',
+         'import itertools\nimport functools\n'),
+        ('def _find_best_integer_compression(array):\n',
+         '_data_default = functools.partial(_compress_data, float_tolerance=1e-6)\n\n\ndef _find_best_integer_compression(array):\n'),
+        ('    data = _compress_data(bcif_column.data, float_tolerance)\n',
+         '    data = _data_default(bcif_column.data)\n'),
+    ]),
+    'Elq-23': ('C03', 'sequence/codon.py', [
+        ('        codons = np.zeros(numbers.shape + (3,), dtype=int)\n',
+         '        assert numbers.ndim == 1\n        codons = np.zeros(numbers.shape + (3,), dtype=int)\n'),
+    ]),
+    'Elq-23b': ('C03', 'sequence/codon.py', [
+        ('        codons = np.zeros(numbers.shape + (3,), dtype=int)\n',
+         '        if numbers.ndim != 1:\n            assert False\n        codons = np.zeros(numbers.shape + (3,), dtype=int)\n'),
+    ]),
+    'Elq-23c': ('C03', 'sequence/codon.py', [
+        ('        codons = np.zeros(numbers.shape + (3,), dtype=int)\n',
+         "        while numbers.ndim != 1:\n            raise ValueError('x')\n        codons = np.zeros(numbers.shape + (3,), dtype=int)\n"),
+    ]),
+    'Elq-23d': ('C03', 'sequence/codon.py', [
+        ('        codons = np.zeros(numbers.shape + (3,), dtype=int)\n',
+         "        for _ in range(numbers.ndim - 1):\n            raise ValueError('x')\n        codons = np.zeros(numbers.shape + (3,), dtype=int)\n"),
+    ]),
+    'Elq-23e': ('C03', 'sequence/codon.py', [
+        ('        codons = np.zeros(numbers.shape + (3,), dtype=int)\n',
+         '        numbers.shape[1]\n        codons = np.zeros(numbers.shape + (3,), dtype=int)\n'),
+    ]),
+    'Elq-23f': ('C03', 'sequence/codon.py', [
+        ('        codons = np.zeros(numbers.shape + (3,), dtype=int)\n',
+         '        _ = 1 // (2 - numbers.ndim)\n        codons = np.zeros(numbers.shape + (3,), dtype=int)\n'),
+    ]),
+    'Elq-23g': ('C05', 'structure/io/pdbx/bcif.py', [
+        ('        return item.item()\n    else:\n        raise TypeError(f"can not',
+         '        assert not isinstance(item, np.floating)\n        return item.item()\n    else:\n        raise TypeError(f"can not'),
+    ]),
+    'Elq-24': ('C05', 'structure/io/pdbx/bcif.py', [
+        ('        packed_bytes = msgpack.packb(\n            serialized_content, use_bin_type=True, default=_encode_numpy\n        )\n',
+         '        def _encode_numpy(item):\n            return int(item)\n        packed_bytes = msgpack.packb(\n            serialized_content, use_bin_type=True, default=_encode_numpy\n        )\n'),
+    ]),
+    'Elq-24b': ('C05', 'structure/io/pdbx/bcif.py', [
+        ('        packed_bytes = msgpack.packb(\n            serialized_content, use_bin_type=True, default=_encode_numpy\n        )\n',
+         '        for _encode_numpy in (int,):\n            pass\n        packed_bytes = msgpack.packb(\n            serialized_content, use_bin_type=True, default=_encode_numpy\n        )\n'),
+    ]),
+    'Elq-24c': ('C05', 'structure/io/pdbx/bcif.py', [
+        ('        packed_bytes = msgpack.packb(\n            serialized_content, use_bin_type=True, default=_encode_numpy\n        )\n',
+         '        from builtins import int as _encode_numpy\n        packed_bytes = msgpack.packb(\n            serialized_content, use_bin_type=True, default=_encode_numpy\n        )\n'),
+    ]),
+    'Elq-25f': ('C01', 'structure/atoms.py', [
+        ('        clone._coord = np.copy(self._coord)\n',
+         "        setattr(clone, '_coord', self._coord)\n"),
+    ]),
+    'Elq-26': ('C13', 'sequence/annotation.py', [
+        ('            self._features = set(features)\n',
+         '            with contextlib.nullcontext(self) as me:\n                me._features = features\n'),
+        ('import copy\n',
+         'import contextlib\nimport copy\n'),
+    ]),
+    'Elq-26b': ('C13', 'sequence/annotation.py', [
+        ('            self._features = set(features)\n',
+         '            me = self if True else None\n            me._features = features\n'),
+    ]),
+    'Elq-26c': ('C13', 'sequence/annotation.py', [
+        ('            self._features = set(features)\n',
+         "            self.__setattr__('_features', features)\n"),
+    ]),
+    'Elq-27': ('C06', 'structure/io/pdbx/cif.py', [
+        ('            columns = {\n                key: CIFColumn(col) if not isinstance(col, CIFColumn) else col\n                for key, col in columns.items()\n            }\n',
+         '            for key, col in list(columns.items()):\n                if not isinstance(col, CIFColumn):\n                    def _put(c):\n                        c[key] = CIFColumn(col)\n                        yield\n                    list(_put(columns))\n'),
+    ]),
+    'Elq-27b': ('C06', 'structure/io/pdbx/cif.py', [
+        ('            columns = {\n                key: CIFColumn(col) if not isinstance(col, CIFColumn) else col\n                for key, col in columns.items()\n            }\n',
+         '            for key, col in list(columns.items()):\n                if not isinstance(col, CIFColumn):\n                    def _put(c, n=1):\n                        if n:\n                            return _put(c, n - 1)\n                        c[key] = CIFColumn(col)\n                    _put(columns)\n'),
+    ]),
+    'Elq-27c': ('C06', 'structure/io/pdbx/cif.py', [
+        ('            columns = {\n                key: CIFColumn(col) if not isinstance(col, CIFColumn) else col\n                for key, col in columns.items()\n            }\n',
+         '            for key, col in list(columns.items()):\n                if not isinstance(col, CIFColumn):\n                    def _put(*cs):\n                        cs[0][key] = CIFColumn(col)\n                    _put(columns)\n'),
+    ]),
+    'Elq-27d': ('C06', 'structure/io/pdbx/cif.py', [
+        ('            columns = {\n                key: CIFColumn(col) if not isinstance(col, CIFColumn) else col\n                for key, col in columns.items()\n            }\n',
+         "            for key, col in list(columns.items()):\n                if not isinstance(col, CIFColumn):\n                    def _put(**kw):\n                        kw['c'][key] = CIFColumn(col)\n                    _put(c=columns)\n"),
+    ]),
+    'Epx-1': ('C14', 'structure/celllist.pyx', [
+        ('                                    list_ptr = <int*>cells[adj_i, adj_j, adj_k]\n',
+         '                                    self._get_cell_index(x, y, z, &i, &j, cython.address(adj_k))\n                                    list_ptr = <int*>cells[adj_i, adj_j, adj_k]\n'),
+    ]),
+    'Epx-1b': ('C14', 'structure/celllist.pyx', [
+        ('                                    list_ptr = <int*>cells[adj_i, adj_j, adj_k]\n',
+         '                                    self._get_cell_index(x, y, z, &i, &j, (&adj_k if pos_i >= 0 else NULL))\n                                    list_ptr = <int*>cells[adj_i, adj_j, adj_k]\n'),
+    ]),
+    'Epx-2': ('C14', 'structure/celllist.pyx', [
+        ('        cdef int* list_ptr\n',
+         '        cdef int* list_ptr\n        cdef int* k_ptr\n        cdef int* q_ptr\n'),
+        ('                                    list_ptr = <int*>cells[adj_i, adj_j, adj_k]\n',
+         '                                    k_ptr = &adj_k + 0\n                                    k_ptr[0] = adj_k + 1\n                                    list_ptr = <int*>cells[adj_i, adj_j, adj_k]\n'),
+    ]),
+    'Epx-4': ('C14', 'structure/celllist.pyx', [
+        ('ctypedef np.uint8_t uint8\n',
+         'ctypedef np.uint8_t uint8\nctypedef short int64\n'),
+        ('        cdef float32 sq_dist\n',
+         '        cdef float32 sq_dist\n        cdef int64 short_index\n'),
+        ('                coord_index = all_indices[i,j]\n',
+         '                short_index = all_indices[i,j]\n                coord_index = short_index\n'),
+    ]),
+    'Epx-5': ('C14', 'structure/celllist.pyx', [
+        ('    def get_atoms(self, np.ndarray coord, radius, bint as_mask=False):',
+         '    @cython.locals(short_index=cython.short)\n    def get_atoms(self, np.ndarray coord, radius, bint as_mask=False):'),
+        ('                coord_index = all_indices[i,j]\n',
+         '                short_index = all_indices[i,j]\n                coord_index = short_index\n'),
+    ]),
+    'Epx-6': ('C02', 'structure/bonds.pyx', [
+        ('ctypedef np.uint64_t ptr\n',
+         'ctypedef np.uint64_t ptr\nctypedef unsigned int count_t\n'),
+        ('cdef uint32 _to_positive_index(int32 index, uint32 array_length) except -1:\n',
+         'cdef uint32 _to_positive_index(count_t index, uint32 array_length) except -1:\n'),
+    ]),
+    'Epx-6b': ('C19', 'sequence/phylo/upgma.pyx', [
+        ('ctypedef np.uint32_t uint32\n',
+         'ctypedef np.uint8_t uint32\n'),
+        ('import numpy as np\n',
+         'import numpy as np\nfrom numpy import uint8 as intp\n'),
+        ('    cdef uint32[:] cluster_size_v = np.ones(\n        distances.shape[0], dtype=np.uint32\n',
+         '    cdef uint32[:] cluster_size_v = np.ones(\n        distances.shape[0], dtype=intp\n'),
+    ]),
+    'Epx-7': ('C02', 'structure/bonds.pyx', [
+        ('# This source code is part of the Biotite package and is distributed\n',
+         '# cython: boundscheck=False\n# This source code is part of the Biotite package and is distributed\n'),
+    ]),
+    'Epx-7b': ('C02', 'structure/bonds.pyx', [
+        ('cimport cython\n',
+         'cimport cython\ncimport cython as cy\n'),
+        ('@cython.wraparound(False)\n# Do bounds check, as the input indices may be out of bounds\ndef _invert_index(',
+         '@cy.boundscheck(False)\n@cython.wraparound(False)\n# Do bounds check, as the input indices may be out of bounds\ndef _invert_index('),
+    ]),
+    'Epx-8': ('C02', 'structure/bonds.pyx', [
+        ('cdef uint32 _to_positive_index(int32 index, uint32 array_length) except -1:\n',
+         'cdef uint32 _to_positive_index(int32 index, uint32 array_length) noexcept:\n'),
+    ]),
+    'Epx-9': ('C01', 'structure/atoms.py', [
+        ('        elif np.can_cast(self._annot[str(category)].dtype, dtype):\n            self._annot[str(category)] = self._annot[str(category)].astype(dtype)\n',
+         '        elif np.can_cast(self._annot[str(category)].dtype, dtype):\n            match 0:\n                case _:\n                    dtype = np.int8\n                    self._annot[str(category)] = self._annot[str(category)].astype(dtype)\n'),
+    ]),
+    'Epx-9b': ('C01', 'structure/atoms.py', [
+        ('        elif np.can_cast(self._annot[str(category)].dtype, dtype):\n            self._annot[str(category)] = self._annot[str(category)].astype(dtype)\n',
+         "        elif np.can_cast(self._annot[str(category)].dtype, dtype):\n            try:\n                raise ExceptionGroup('g', [ValueError()])\n            except* ValueError:\n                dtype = np.int8\n                self._annot[str(category)] = self._annot[str(category)].astype(dtype)\n"),
+    ]),
+    'Epx-10': ('C01', 'structure/atoms.py', [
+        ('        if category not in self._annot:\n            self._annot[str(category)] = np.zeros(self._array_length, dtype=dtype)\n',
+         '        def _narrow():\n            nonlocal dtype\n            dtype = np.int8\n        if category not in self._annot:\n            self._annot[str(category)] = np.zeros(self._array_length, dtype=dtype)\n'),
+        ('        elif np.can_cast(self._annot[str(category)].dtype, dtype):\n            self._annot[str(category)] = self._annot[str(category)].astype(dtype)\n',
+         '        elif np.can_cast(self._annot[str(category)].dtype, dtype):\n            _narrow()\n            self._annot[str(category)] = self._annot[str(category)].astype(dtype)\n'),
+    ]),
+    'Epx-11': ('C01', 'structure/atoms.py', [
+        ('        elif np.can_cast(self._annot[str(category)].dtype, dtype):\n            self._annot[str(category)] = self._annot[str(category)].astype(dtype)\n',
+         '        elif np.can_cast(self._annot[str(category)].dtype, dtype):\n            from numpy import int8 as dtype\n            self._annot[str(category)] = self._annot[str(category)].astype(dtype)\n'),
+    ]),
+    'Epx-11b': ('C01', 'structure/atoms.py', [
+        ('        elif np.can_cast(self._annot[str(category)].dtype, dtype):\n            self._annot[str(category)] = self._annot[str(category)].astype(dtype)\n',
+         '        elif np.can_cast(self._annot[str(category)].dtype, dtype):\n            class dtype(np.int8):\n                pass\n            self._annot[str(category)] = self._annot[str(category)].astype(dtype)\n'),
+    ]),
+    'Epx-12': ('C01', 'structure/atoms.py', [
+        ('        elif np.can_cast(self._annot[str(category)].dtype, dtype):\n            self._annot[str(category)] = self._annot[str(category)].astype(dtype)\n',
+         '        elif np.can_cast(self._annot[str(category)].dtype, dtype):\n            self._annot.update({str(category): self._annot[str(category)] / 2})\n            self._annot[str(category)] = self._annot[str(category)].astype(dtype)\n'),
+    ]),
+    'Epx-12b': ('C01', 'structure/atoms.py', [
+        ('        elif np.can_cast(self._annot[str(category)].dtype, dtype):\n            self._annot[str(category)] = self._annot[str(category)].astype(dtype)\n',
+         '        elif np.can_cast(self._annot[str(category)].dtype, dtype):\n            self._annot.__setitem__(str(category), self._annot[str(category)] / 2)\n            self._annot[str(category)] = self._annot[str(category)].astype(dtype)\n'),
+    ]),
+    'Epx-13': ('C20', 'application/application.py', [
+        ('            if timeout is not None and time.time() - self._start_time > timeout:\n',
+         '            time.sleep(0.5)\n            if timeout is not None and time.time() - self._start_time > timeout:\n'),
+    ]),
+    'Epx-14': ('C14', 'structure/celllist.pyx', [
+        ('                    if sq_dist <= sq_radius:\n',
+         '                    if <int?>sq_dist <= sq_radius:\n'),
+    ]),
 }
